@@ -3,24 +3,34 @@
 
   Layer A (`CachedModel/State.lean`) runs each client call, each worker command and each sweep atomically; Layer B
   (`CachedModel/LayerB.lean`) runs the same programs one atomic action at a time. This file proves that running one
-  Layer B thread alone, from one Layer A event boundary to the next, is exactly the Layer A event:
+  Layer B thread alone, from one Layer A event boundary to the next, is exactly the Layer A event.
+  "Alone" includes: no lock is owned and nobody keeps a `get_ref` read guard (`storeReaders = []`) at the boundary —
+  store writes are not enabled while another thread keeps a read guard on the shard (`storeWritable`).
 
-  * §2 worker    `workerRun`, `worker_refines` (+ `_core`, `_drain`); heart: `loop_sim` (`createLoop` against the cycle
+  * §2 worker    `workerRun`, `worker_refines` (+ `_core`, `_drain`, `_shutdown`) for EVERY command, `Shutdown` included;
+                 heart: `loop_sim` (`createLoop` against the cycle
                  `loopDecide → evRemove → evSub → evStore → evSpace → fill`), `put_sim`, `worker_put`;
-  * §3 clients   `clientRun`, `client_refines` (`putW`, `delete`, `get`, `weight`, `upsert`), `afterCall`,
-                 `parked_is_send` (Layer A's `.parked` = the Layer B client at `.send cmd` with the queue full);
+  * §3 clients   `clientRun`, `client_refines` (`putW`, `delete`, `get`, `weight`, `upsert`, `getRef`, `shutdown`),
+                 `afterCall`; `getRef k` is Layer A's `.get k` (guard taken and released within the run:
+                 `client_getRef`), `shutdown` is `clientShutdown` (`client_shutdown`, `run_shutSendCmd`,
+                 `run_shutSendBuf`, `run_shutFinish`);
+                 `parked_is_send` / `parked_is_shutdown_send` / `parked_not_enabled` (Layer A's `.parked` = the Layer B
+                 client at `.send cmd` / `.shutSendCmd` / `.shutSendBuf` with that queue full);
+                 `resume_refines` (a parked call + `resume` = the Layer B client going on from that send);
   * §4 sweeper   `sweeperRun`, `sweeper_refines` for EVERY visiting order (`ValidVisits`), `sweepEntries_perm`,
                  `evictId_comm` (evictions of different ids commute);
-  * §5           `atRest`, `runActs`, `layerA_step_is_layerB_run`.
+  * §5           `atRest`, `runActs`, `layerA_step_is_layerB_run` (incl. `.shutdown c`), `shutdown_park_resume`.
 
   FINDINGS
-  * `worker_shutdown` / `worker_shutdown_drift`: on the `Shutdown` command Layer A sets `g.worker := .draining`,
-    Layer B only moves its pc to `.drain` and leaves `g.worker = .running`. All other fields agree, and from there both
-    drain alike (`worker_drain_B`). This is the only place where the two layers' shared states differ.
+  * FIXED in the model: on the `Shutdown` command Layer B used to leave `g.worker = .running` (it only moved its pc to
+    `.drain`) while Layer A sets `g.worker := .draining`. `workerAct` now sets it too: `worker_shutdown`,
+    `worker_shutdown_agrees`; `worker_refines` and `layerA_step_is_layerB_run` no longer exclude `Shutdown`.
   * the fuel `4 * |kw| + 12` is not enough for `workerRun` (example after `worker_refines`): an eviction is five
     actions; `workerFuel = 5 * |kw| + 12` is proved sufficient.
   * `sweeper_refines` needs the expiry index to have unique keys (`AMap.NoDup g.ttl`): on a duplicated key Layer B's
     `ttl.del` removes every copy, Layer A's `filter` only the due ones.
+  * `shutdown` takes 12 actions; `clientRun` needs 13 iterations (the last one sees `.idle`), 12 are not enough
+    (example in §5).
 -/
 import CachedModel.LayerB
 import CachedProofs.Properties.C06
@@ -61,6 +71,15 @@ def pcOfMode : WorkerMode → WPc
 /-- explicit sufficient fuel for one command -/
 def workerFuel (b : BState) : Nat := 5 * b.g.adm.kw.length + 12
 
+/-- nobody keeps a read guard (`get_ref` in the middle of its call): every store write is enabled -/
+@[simp] theorem storeWritable_mk_nil (g : State) (w : WPc) (sw : SPc) (cl : List CPc) (res : List (List Out))
+    (wu : Option Tid) (tt : Option Nat) (ss : List (Nat × Nat)) (k : Nat) (t : Option Nat) :
+    storeWritable ⟨g, w, sw, cl, res, wu, tt, [], ss⟩ k t = true := rfl
+
+theorem storeWritable_of_nil (b : BState) (k : Nat) (t : Option Nat) (h : b.storeReaders = []) :
+    storeWritable b k t = true := by
+  simp [storeWritable, h]
+
 /-! ## 1  evictions only touch the store and the statistics -/
 
 theorem applyEvict_frame (s : State) (e : Evicted) :
@@ -70,7 +89,7 @@ theorem applyEvict_frame (s : State) (e : Evicted) :
   simp only []
   split <;> rfl
 
-theorem applyEvict_adm (s : State) (a : Adm) (e : Evicted) :
+theorem applyEvict_setAdm (s : State) (a : Adm) (e : Evicted) :
     applyEvict { s with adm := a } e = { applyEvict s e with adm := a } := by
   obtain ⟨id, key, w⟩ := e
   unfold applyEvict
@@ -84,7 +103,7 @@ theorem foldl_applyEvict_adm (evs : List Evicted) : ∀ (s : State) (a : Adm),
   | cons e rest ih =>
     intro s a
     show rest.foldl applyEvict (applyEvict { s with adm := a } e) = _
-    rw [applyEvict_adm, ih]
+    rw [applyEvict_setAdm, ih]
     rfl
 
 theorem foldl_applyEvict_frame (evs : List Evicted) : ∀ (s : State),
@@ -102,7 +121,7 @@ theorem foldl_applyEvict_frame (evs : List Evicted) : ∀ (s : State),
   rw [applyEvict_frame]
 @[simp] theorem applyEvict_cfg (s : State) (e : Evicted) : (applyEvict s e).cfg = s.cfg := by
   rw [applyEvict_frame]
-@[simp] theorem applyEvict_adm' (s : State) (e : Evicted) : (applyEvict s e).adm = s.adm := by
+@[simp] theorem applyEvict_adm_eq (s : State) (e : Evicted) : (applyEvict s e).adm = s.adm := by
   rw [applyEvict_frame]
 @[simp] theorem foldl_applyEvict_lfu (evs : List Evicted) (s : State) : (evs.foldl applyEvict s).lfu = s.lfu := by
   rw [foldl_applyEvict_frame]
@@ -114,17 +133,17 @@ theorem foldl_applyEvict_frame (evs : List Evicted) : ∀ (s : State),
 /-- The result of a Layer B run of the worker agrees with the result of the Layer A step:
     same shared state, same oracle left over, the worker back at the head of its loop, no lock owned,
     nothing else touched; an illegal event / oracle on one side is one on the other side. -/
-def WAgree (sw : SPc) (cl : List CPc) (res : List (List Out)) (mode : WorkerMode)
+def WAgree (sw : SPc) (cl : List CPc) (res : List (List Out)) (ss : List (Nat × Nat)) (mode : WorkerMode)
     (ra : Except String (State × Out × Oracle)) (rb : Except String (BState × Oracle)) : Prop :=
   match ra with
-  | .ok (g', out, o') => rb = .ok (⟨g', pcOfMode g'.worker, sw, cl, res, none, none⟩, o') ∧
+  | .ok (g', out, o') => rb = .ok (⟨g', pcOfMode g'.worker, sw, cl, res, none, none, [], ss⟩, o') ∧
       (match out with | .workerPanic _ => g'.worker = .dead | _ => g'.worker = mode)
   | .error _ => ∃ m, rb = .error m
 
-theorem worker_update (g : State) (sw : SPc) (cl : List CPc) (res : List (List Out)) (o : Oracle) (n : Nat)
+theorem worker_update (g : State) (sw : SPc) (cl : List CPc) (res : List (List Out)) (ss : List (Nat × Nat)) (o : Oracle) (n : Nat)
     (id : Nat) (w : Int) (h : Option Nat) (q : List (Cmd × Option Nat))
     (hrun : g.worker = .running) (hq : g.queue = (.updateWeight id w, h) :: q) :
-    WAgree sw cl res .running (workerStep g o) (workerRun (n + 2) ⟨g, .recv, sw, cl, res, none, none⟩ o) := by
+    WAgree sw cl res ss .running (workerStep g o) (workerRun (n + 2) ⟨g, .recv, sw, cl, res, none, none, [], ss⟩ o) := by
   simp only [workerRun, workerAct, hq, workerStep, hrun, workerUpdateWeight, WPc.atHead, wuFree]
   cases hk : g.adm.kw.get? id with
   | none => simp [WAgree, finishCmd, pcOfMode, hrun]
@@ -133,10 +152,10 @@ theorem worker_update (g : State) (sw : SPc) (cl : List CPc) (res : List (List O
     · simp only [hc, if_true]; simp [WAgree, pcOfMode]
     · simp only [hc, if_false]; simp [WAgree, finishCmd, pcOfMode]
 
-theorem worker_delete (g : State) (sw : SPc) (cl : List CPc) (res : List (List Out)) (o : Oracle) (n : Nat)
+theorem worker_delete (g : State) (sw : SPc) (cl : List CPc) (res : List (List Out)) (ss : List (Nat × Nat)) (o : Oracle) (n : Nat)
     (k : Nat) (h : Option Nat) (q : List (Cmd × Option Nat))
     (hrun : g.worker = .running) (hq : g.queue = (.delete k, h) :: q) :
-    WAgree sw cl res .running (workerStep g o) (workerRun (n + 5) ⟨g, .recv, sw, cl, res, none, none⟩ o) := by
+    WAgree sw cl res ss .running (workerStep g o) (workerRun (n + 5) ⟨g, .recv, sw, cl, res, none, none, [], ss⟩ o) := by
   simp only [workerRun, workerAct, hq, workerStep, hrun, workerDelete, WPc.atHead, wuFree, ttlFree]
   cases hk : g.store.get? k with
   | none => simp [WAgree, finishCmd, pcOfMode]
@@ -152,43 +171,42 @@ theorem worker_delete (g : State) (sw : SPc) (cl : List CPc) (res : List (List O
       | none => simp [WAgree, finishCmd, pcOfMode, Adm.delete, hkw]
       | some x => simp [WAgree, finishCmd, pcOfMode, Adm.delete, hkw, ttlDelete]
 
-/-- FINDING (model drift): on the `Shutdown` command Layer A records `worker := .draining` in the shared state,
-    Layer B only moves its pc to `.drain` and leaves `g.worker = .running`. Everything else agrees. -/
-theorem worker_shutdown (g : State) (sw : SPc) (cl : List CPc) (res : List (List Out)) (o : Oracle) (n : Nat)
+/-- The `Shutdown` command: one action; both layers record `worker := .draining` (Layer B's pc goes to `.drain`).
+    (Before the model fix Layer B left `g.worker = .running` here — the drift reported earlier; it is gone.) -/
+theorem worker_shutdown (g : State) (sw : SPc) (cl : List CPc) (res : List (List Out)) (ss : List (Nat × Nat)) (o : Oracle) (n : Nat)
     (h : Option Nat) (q : List (Cmd × Option Nat))
     (hrun : g.worker = .running) (hq : g.queue = (.shutdown, h) :: q) :
-    ∃ g' out, workerStep g o = .ok (g', out, o) ∧ g'.worker = .draining ∧
-      workerRun (n + 1) ⟨g, .recv, sw, cl, res, none, none⟩ o =
-        .ok (⟨{ g' with worker := .running }, .drain, sw, cl, res, none, none⟩, o) := by
-  simp [workerRun, workerAct, hq, workerStep, hrun, WPc.atHead, finishCmd]
+    WAgree sw cl res ss .draining (workerStep g o) (workerRun (n + 1) ⟨g, .recv, sw, cl, res, none, none, [], ss⟩ o) := by
+  simp [WAgree, workerRun, workerAct, hq, workerStep, hrun, WPc.atHead, finishCmd, pcOfMode]
 
-theorem worker_drain (g : State) (sw : SPc) (cl : List CPc) (res : List (List Out)) (o : Oracle) (n : Nat)
+theorem worker_drain (g : State) (sw : SPc) (cl : List CPc) (res : List (List Out)) (ss : List (Nat × Nat)) (o : Oracle) (n : Nat)
     (hrun : g.worker = .draining) :
-    WAgree sw cl res .draining (workerStep g o) (workerRun (n + 1) ⟨g, .drain, sw, cl, res, none, none⟩ o) := by
+    WAgree sw cl res ss .draining (workerStep g o) (workerRun (n + 1) ⟨g, .drain, sw, cl, res, none, none, [], ss⟩ o) := by
   cases hq : g.queue with
   | nil => simp [workerRun, workerAct, hq, workerStep, hrun, WAgree]
   | cons c q =>
     obtain ⟨cmd, h⟩ := c
     simp [workerRun, workerAct, hq, workerStep, hrun, WPc.atHead, WAgree, finishCmd, pcOfMode]
 
-theorem worker_dead (g : State) (sw : SPc) (cl : List CPc) (res : List (List Out)) (o : Oracle) (n : Nat)
+theorem worker_dead (g : State) (sw : SPc) (cl : List CPc) (res : List (List Out)) (ss : List (Nat × Nat)) (o : Oracle) (n : Nat)
     (hrun : g.worker = .dead) :
-    WAgree sw cl res .dead (workerStep g o) (workerRun (n + 1) ⟨g, .dead, sw, cl, res, none, none⟩ o) := by
+    WAgree sw cl res ss .dead (workerStep g o) (workerRun (n + 1) ⟨g, .dead, sw, cl, res, none, none, [], ss⟩ o) := by
   simp [workerRun, workerAct, workerStep, hrun, WAgree]
 
-theorem worker_empty (g : State) (sw : SPc) (cl : List CPc) (res : List (List Out)) (o : Oracle) (n : Nat)
+theorem worker_empty (g : State) (sw : SPc) (cl : List CPc) (res : List (List Out)) (ss : List (Nat × Nat)) (o : Oracle) (n : Nat)
     (hrun : g.worker = .running) (hq : g.queue = []) :
-    WAgree sw cl res .running (workerStep g o) (workerRun (n + 1) ⟨g, .recv, sw, cl, res, none, none⟩ o) := by
+    WAgree sw cl res ss .running (workerStep g o) (workerRun (n + 1) ⟨g, .recv, sw, cl, res, none, none, [], ss⟩ o) := by
   simp [workerRun, workerAct, workerStep, hrun, hq, WAgree]
 
-/-- After the `Shutdown` command Layer B stands at `.drain` with `g.worker = .running` (see `worker_shutdown`);
-    from there it drains exactly as Layer A does in mode `.draining`. -/
-theorem worker_drain_B (g : State) (sw : SPc) (cl : List CPc) (res : List (List Out)) (o : Oracle) (n : Nat)
+/-- The drain action does not look at `g.worker`: a Layer B worker at `.drain` drains as Layer A does in mode
+    `.draining` whatever the shared state records (since the model fix `.drain` and `g.worker = .draining` go together,
+    see `worker_shutdown`; this lemma is kept from the time they did not). -/
+theorem worker_drain_B (g : State) (sw : SPc) (cl : List CPc) (res : List (List Out)) (ss : List (Nat × Nat)) (o : Oracle) (n : Nat)
     (hrun : g.worker = .running) :
     match workerStep { g with worker := .draining } o with
-    | .ok (g', _, o') => workerRun (n + 1) ⟨g, .drain, sw, cl, res, none, none⟩ o =
-        .ok (⟨{ g' with worker := .running }, .drain, sw, cl, res, none, none⟩, o')
-    | .error _ => ∃ m, workerRun (n + 1) ⟨g, .drain, sw, cl, res, none, none⟩ o = .error m := by
+    | .ok (g', _, o') => workerRun (n + 1) ⟨g, .drain, sw, cl, res, none, none, [], ss⟩ o =
+        .ok (⟨{ g' with worker := .running }, .drain, sw, cl, res, none, none, [], ss⟩, o')
+    | .error _ => ∃ m, workerRun (n + 1) ⟨g, .drain, sw, cl, res, none, none, [], ss⟩ o = .error m := by
   cases hq : g.queue with
   | nil => simp [workerRun, workerAct, hq, workerStep]
   | cons c q =>
@@ -222,10 +240,10 @@ def putEnd (g : State) (c : PutCmd) (st : Status) : State × WPc :=
     ({ s2 with acks := setAck s2.acks c.h st }, .recv)
 
 /-- Layer B from `insert` to the end of the command. -/
-theorem run_insert (g : State) (sw : SPc) (cl : List CPc) (res : List (List Out)) (o : Oracle) (n : Nat)
+theorem run_insert (g : State) (sw : SPc) (cl : List CPc) (res : List (List Out)) (ss : List (Nat × Nat)) (o : Oracle) (n : Nat)
     (c : PutCmd) (hn : 4 ≤ n) :
-    workerRun n ⟨g, .insert c, sw, cl, res, none, none⟩ o =
-      .ok (⟨(putEnd g c .accepted).1, (putEnd g c .accepted).2, sw, cl, res, none, none⟩, o) := by
+    workerRun n ⟨g, .insert c, sw, cl, res, none, none, [], ss⟩ o =
+      .ok (⟨(putEnd g c .accepted).1, (putEnd g c .accepted).2, sw, cl, res, none, none, [], ss⟩, o) := by
   obtain ⟨m, rfl⟩ : ∃ m, n = m + 4 := ⟨n - 4, by omega⟩
   simp only [workerRun, workerAct, WPc.atHead, wuFree, ttlFree, putEnd]
   obtain ⟨id, hash, w, k, v, ttl, h⟩ := c
@@ -237,17 +255,17 @@ theorem run_insert (g : State) (sw : SPc) (cl : List CPc) (res : List (List Out)
     | some e => simp [finishCmd, Adm.add, ttlPut, he]
 
 /-- Layer B through one eviction: `evRemove → evSub → evStore → evSpace → fill`, up to the next `loopDecide`. -/
-theorem run_evict (g : State) (sw : SPc) (cl : List CPc) (res : List (List Out)) (o : Oracle) (m : Nat)
+theorem run_evict (g : State) (sw : SPc) (cl : List CPc) (res : List (List Out)) (ss : List (Nat × Nat)) (o : Oracle) (m : Nat)
     (c : PutCmd) (incEst : Nat) (sample : List SKey) (k : SKey) (wk : WKey) (t : TinyLFU) (size : Nat)
     (hk : g.adm.kw.get? k.id = some wk) (ht : g.lfu = t) (hs : g.cfg.sampleSize = size) :
-    workerRun (m + 5) ⟨g, .evRemove c incEst sample k, sw, cl, res, none, none⟩ o =
+    workerRun (m + 5) ⟨g, .evRemove c incEst sample k, sw, cl, res, none, none, [], ss⟩ o =
       match fillSample t (g.adm.kw.del k.id) (fillNeed size (g.adm.kw.del k.id) sample) sample o with
       | .error e => .error e
       | .ok (s'', o') =>
         contRun m (loopDecide
           ⟨applyEvict { g with adm := { g.adm with kw := g.adm.kw.del k.id, used := g.adm.used - wk.weight } }
               (k.id, wk.key, wk.weight),
-            .fill c incEst sample (g.adm.max - (g.adm.used - wk.weight)), sw, cl, res, none, none⟩
+            .fill c incEst sample (g.adm.max - (g.adm.used - wk.weight)), sw, cl, res, none, none, [], ss⟩
           c incEst s'' (g.adm.max - (g.adm.used - wk.weight)) o') := by
   subst ht hs
   simp only [workerRun, workerAct, hk, contRun, WPc.atHead, wuFree]
@@ -260,19 +278,19 @@ theorem run_evict (g : State) (sw : SPc) (cl : List CPc) (res : List (List Out))
     `loopDecide → evRemove → evSub → evStore → evSpace → fill → loopDecide` (which applies each eviction at once),
     from an arbitrary intermediate state. `s0` is the shared state before the first eviction; the Layer B state has
     the evictions so far (`ev`, latest first) applied and `adm = a`. -/
-theorem loop_sim (c : PutCmd) (incEst : Nat) (s0 : State) (sw : SPc) (cl : List CPc) (res : List (List Out)) :
+theorem loop_sim (c : PutCmd) (incEst : Nat) (s0 : State) (sw : SPc) (cl : List CPc) (res : List (List Out)) (ss : List (Nat × Nat)) :
     ∀ (fuelA : Nat) (a : Adm) (sample : List SKey) (o : Oracle) (ev : List Evicted) (pp : List SKey)
       (wpc : WPc) (n : Nat),
       SampleOK a.kw sample → a.kw.length < fuelA → 5 * fuelA ≤ n →
       match createLoop s0.lfu s0.cfg.sampleSize c.w incEst fuelA a sample o ev pp with
       | .ok r =>
-        contRun n (loopDecide ⟨{ ev.reverse.foldl applyEvict s0 with adm := a }, wpc, sw, cl, res, none, none⟩
+        contRun n (loopDecide ⟨{ ev.reverse.foldl applyEvict s0 with adm := a }, wpc, sw, cl, res, none, none, [], ss⟩
             c incEst sample (a.max - a.used) o) =
           .ok (⟨(putEnd { r.evicted.foldl applyEvict s0 with adm := r.adm } c r.status).1,
                 (putEnd { r.evicted.foldl applyEvict s0 with adm := r.adm } c r.status).2,
-                sw, cl, res, none, none⟩, r.oracle)
+                sw, cl, res, none, none, [], ss⟩, r.oracle)
       | .error _ =>
-        ∃ m, contRun n (loopDecide ⟨{ ev.reverse.foldl applyEvict s0 with adm := a }, wpc, sw, cl, res, none, none⟩
+        ∃ m, contRun n (loopDecide ⟨{ ev.reverse.foldl applyEvict s0 with adm := a }, wpc, sw, cl, res, none, none, [], ss⟩
             c incEst sample (a.max - a.used) o) = .error m := by
   intro fuelA
   induction fuelA with
@@ -283,7 +301,7 @@ theorem loop_sim (c : PutCmd) (incEst : Nat) (s0 : State) (sw : SPc) (cl : List 
     by_cases hsp : a.max - a.used ≥ c.w
     · simp only [hsp, if_true, contRun, WPc.atHead]
       simp only [Bool.false_eq_true, if_false]
-      exact run_insert _ sw cl res o n c (by omega)
+      exact run_insert _ sw cl res ss o n c (by omega)
     · simp only [hsp, if_false]
       rcases hp : o.pops with _ | ⟨_ | id, pops⟩
       · simp [contRun]
@@ -334,15 +352,15 @@ theorem loop_sim (c : PutCmd) (incEst : Nat) (s0 : State) (sw : SPc) (cl : List 
                     applyEvict { ev.reverse.foldl applyEvict s0 with
                               adm := { a with kw := a.kw.del k.id, used := a.used - wk.weight } }
                       (k.id, wk.key, wk.weight) := by
-                  rw [applyEvict_adm, List.reverse_cons, List.foldl_append]
+                  rw [applyEvict_setAdm, List.reverse_cons, List.foldl_append]
                   rfl
                 rw [hX] at IH
                 exact IH
 
 /-- what Layer A's `finish` makes of the result of `workerPut`, as a Layer B state -/
-def finishB (sw : SPc) (cl : List CPc) (res : List (List Out)) (h : Option Nat) : Exec → BState
-  | .done s1 st _ _ _ => ⟨{ s1 with acks := setAck s1.acks h st }, .recv, sw, cl, res, none, none⟩
-  | .panicked s1 _ => ⟨{ s1 with worker := .dead, queue := [] }, .dead, sw, cl, res, none, none⟩
+def finishB (sw : SPc) (cl : List CPc) (res : List (List Out)) (ss : List (Nat × Nat)) (h : Option Nat) : Exec → BState
+  | .done s1 st _ _ _ => ⟨{ s1 with acks := setAck s1.acks h st }, .recv, sw, cl, res, none, none, [], ss⟩
+  | .panicked s1 _ => ⟨{ s1 with worker := .dead, queue := [] }, .dead, sw, cl, res, none, none, [], ss⟩
 
 /-- Layer A: the part of `workerPut` after `maybeAdd` has answered `r` (verbatim). -/
 def putTailA (s : State) (id : Nat) (w : Int) (k v : Nat) (ttl : Option Nat) (r : AdmResult) : Exec :=
@@ -385,11 +403,11 @@ theorem workerPut_eq (s : State) (id hash : Nat) (w : Int) (k v : Nat) (ttl : Op
       · simp only [hst, if_false]
 
 /-- The Layer A tail and the Layer B tail (`putEnd`) are the same function of the state with the evictions applied. -/
-theorem putTailA_eq (s : State) (sw : SPc) (cl : List CPc) (res : List (List Out)) (c : PutCmd) (r : AdmResult)
+theorem putTailA_eq (s : State) (sw : SPc) (cl : List CPc) (res : List (List Out)) (ss : List (Nat × Nat)) (c : PutCmd) (r : AdmResult)
     (a : Adm) (hr : r.adm = if r.status = .accepted then a.add c.id c.k c.hash c.w else a) :
-    finishB sw cl res c.h (putTailA s c.id c.w c.k c.v c.ttl r) =
+    finishB sw cl res ss c.h (putTailA s c.id c.w c.k c.v c.ttl r) =
       ⟨(putEnd { r.evicted.foldl applyEvict s with adm := a } c r.status).1,
-       (putEnd { r.evicted.foldl applyEvict s with adm := a } c r.status).2, sw, cl, res, none, none⟩ := by
+       (putEnd { r.evicted.foldl applyEvict s with adm := a } c r.status).2, sw, cl, res, none, none, [], ss⟩ := by
   unfold putTailA putEnd
   rw [foldl_applyEvict_adm, hr]
   have hnow : (r.evicted.foldl applyEvict s).now = s.now := by rw [foldl_applyEvict_frame]
@@ -406,11 +424,11 @@ theorem putTailA_eq (s : State) (sw : SPc) (cl : List CPc) (res : List (List Out
   · simp [hst, finishB]
 
 /-- A put command from `present` (the command is already taken off the queue) to its end. -/
-theorem put_sim (s0 : State) (sw : SPc) (cl : List CPc) (res : List (List Out)) (o : Oracle) (n : Nat)
+theorem put_sim (s0 : State) (sw : SPc) (cl : List CPc) (res : List (List Out)) (ss : List (Nat × Nat)) (o : Oracle) (n : Nat)
     (c : PutCmd) (hn : 5 * s0.adm.kw.length + 8 ≤ n) :
     match workerPut s0 c.id c.hash c.w c.k c.v c.ttl o with
-    | .ok (x, o') => workerRun n ⟨s0, .present c, sw, cl, res, none, none⟩ o = .ok (finishB sw cl res c.h x, o')
-    | .error _ => ∃ m, workerRun n ⟨s0, .present c, sw, cl, res, none, none⟩ o = .error m := by
+    | .ok (x, o') => workerRun n ⟨s0, .present c, sw, cl, res, none, none, [], ss⟩ o = .ok (finishB sw cl res ss c.h x, o')
+    | .error _ => ∃ m, workerRun n ⟨s0, .present c, sw, cl, res, none, none, [], ss⟩ o = .error m := by
   obtain ⟨m, rfl⟩ : ∃ m, n = m + 3 := ⟨n - 3, by omega⟩
   rw [workerPut_eq]
   by_cases hc : s0.store.contains c.k = true
@@ -427,7 +445,7 @@ theorem put_sim (s0 : State) (sw : SPc) (cl : List CPc) (res : List (List Out)) 
         rw [putTailA_eq (a := s0.adm) (hr := by simp)]
         simp only [workerRun, workerAct, hc, hh, hfit, WPc.atHead, wuFree, Option.isNone_none, Bool.true_or,
           Bool.not_true, Bool.false_eq_true, if_false, if_true]
-        exact run_insert s0 sw cl res o (m + 1) c (by omega)
+        exact run_insert s0 sw cl res ss o (m + 1) c (by omega)
       · simp only [hfit, if_false]
         cases hest : estimateO s0.lfu c.hash o with
         | error e =>
@@ -441,11 +459,11 @@ theorem put_sim (s0 : State) (sw : SPc) (cl : List CPc) (res : List (List Out)) 
           | ok r2 =>
             obtain ⟨sample, o2⟩ := r2
             simp only []
-            have L := loop_sim c incEst s0 sw cl res (s0.adm.kw.length + 1) s0.adm sample o2 [] []
+            have L := loop_sim c incEst s0 sw cl res ss (s0.adm.kw.length + 1) s0.adm sample o2 [] []
               (.sampleInit c (s0.adm.max - s0.adm.used) incEst) m
               (fillSample_sampleOK (SampleOK.nil _) hfs) (Nat.lt_succ_self _) (by omega)
-            have hB : workerRun (m + 3) ⟨s0, .present c, sw, cl, res, none, none⟩ o =
-                contRun m (loopDecide ⟨s0, .sampleInit c (s0.adm.max - s0.adm.used) incEst, sw, cl, res, none, none⟩
+            have hB : workerRun (m + 3) ⟨s0, .present c, sw, cl, res, none, none, [], ss⟩ o =
+                contRun m (loopDecide ⟨s0, .sampleInit c (s0.adm.max - s0.adm.used) incEst, sw, cl, res, none, none, [], ss⟩
                   c incEst sample (s0.adm.max - s0.adm.used) o2) := by
               simp only [workerRun, workerAct, hc, hh, hfit, hest, hfs, WPc.atHead, wuFree, Option.isNone_none,
                 Bool.true_or, Bool.not_true, Bool.false_eq_true, if_false, contRun]
@@ -489,14 +507,14 @@ theorem workerPut_worker (s : State) (id hash : Nat) (w : Int) (k v : Nat) (ttl 
       · simp only [Exec.done.injEq] at h1
         rw [← h1.1]; simp [foldl_applyEvict_worker]
 
-theorem worker_put (g : State) (sw : SPc) (cl : List CPc) (res : List (List Out)) (o : Oracle) (n : Nat)
+theorem worker_put (g : State) (sw : SPc) (cl : List CPc) (res : List (List Out)) (ss : List (Nat × Nat)) (o : Oracle) (n : Nat)
     (c : PutCmd) (q : List (Cmd × Option Nat))
     (hrun : g.worker = .running) (hq : g.queue = (cmdOfPut c, c.h) :: q) (hn : 5 * g.adm.kw.length + 9 ≤ n) :
-    WAgree sw cl res .running (workerStep g o) (workerRun n ⟨g, .recv, sw, cl, res, none, none⟩ o) := by
+    WAgree sw cl res ss .running (workerStep g o) (workerRun n ⟨g, .recv, sw, cl, res, none, none, [], ss⟩ o) := by
   obtain ⟨m, rfl⟩ : ∃ m, n = m + 1 := ⟨n - 1, by omega⟩
-  have P := put_sim { g with queue := q, worker := .running } sw cl res o m c (by simp only []; omega)
-  have hB : workerRun (m + 1) ⟨g, .recv, sw, cl, res, none, none⟩ o =
-      workerRun m ⟨{ g with queue := q, worker := .running }, .present c, sw, cl, res, none, none⟩ o := by
+  have P := put_sim { g with queue := q, worker := .running } sw cl res ss o m c (by simp only []; omega)
+  have hB : workerRun (m + 1) ⟨g, .recv, sw, cl, res, none, none, [], ss⟩ o =
+      workerRun m ⟨{ g with queue := q, worker := .running }, .present c, sw, cl, res, none, none, [], ss⟩ o := by
     obtain ⟨id, hash, w, k, v, ttl, h⟩ := c
     cases ttl <;> simp [workerRun, workerAct, hq, hrun, cmdOfPut, WPc.atHead]
   rw [hB]
@@ -533,71 +551,117 @@ theorem worker_put (g : State) (sw : SPc) (cl : List CPc) (res : List (List Out)
     | panicked s1 p =>
       simp [WAgree, P, finishB, pcOfMode]
 
-/-- **Worker, all commands but `Shutdown`** (for `Shutdown` see `worker_shutdown`): the non-preempted Layer B run of
-    the worker is the Layer A step. Any worker mode; no hypothesis on the queue (empty queue: both sides refuse). -/
-theorem worker_refines_core (g : State) (sw : SPc) (cl : List CPc) (res : List (List Out)) (o : Oracle) (n : Nat)
-    (hn : 5 * g.adm.kw.length + 12 ≤ n)
-    (hns : g.worker = .running → ∀ h q, g.queue ≠ (.shutdown, h) :: q) :
-    WAgree sw cl res g.worker (workerStep g o) (workerRun n ⟨g, pcOfMode g.worker, sw, cl, res, none, none⟩ o) := by
+/-- the command at the head of the queue is `Shutdown` -/
+def headIsShutdown : List (Cmd × Option Nat) → Bool
+  | (.shutdown, _) :: _ => true
+  | _ => false
+
+/-- the worker's mode after a step that does not panic: `Shutdown`, taken by a running worker, makes it drain -/
+def nextMode (g : State) : WorkerMode :=
+  if g.worker = .running ∧ headIsShutdown g.queue = true then .draining else g.worker
+
+/-- **Worker, every command** (`Shutdown` included: `worker_shutdown`): the non-preempted Layer B run of the worker is
+    the Layer A step. Any worker mode; no hypothesis on the queue (empty queue: both sides refuse). -/
+theorem worker_refines_core (g : State) (sw : SPc) (cl : List CPc) (res : List (List Out)) (ss : List (Nat × Nat)) (o : Oracle) (n : Nat)
+    (hn : 5 * g.adm.kw.length + 12 ≤ n) :
+    WAgree sw cl res ss (nextMode g) (workerStep g o)
+      (workerRun n ⟨g, pcOfMode g.worker, sw, cl, res, none, none, [], ss⟩ o) := by
   obtain ⟨m, rfl⟩ : ∃ m, n = m + 12 := ⟨n - 12, by omega⟩
   cases hm : g.worker with
-  | dead => exact worker_dead g sw cl res o (m + 11) hm
-  | draining => exact worker_drain g sw cl res o (m + 11) hm
+  | dead =>
+    have : nextMode g = .dead := by simp [nextMode, hm]
+    rw [this]; exact worker_dead g sw cl res ss o (m + 11) hm
+  | draining =>
+    have : nextMode g = .draining := by simp [nextMode, hm]
+    rw [this]; exact worker_drain g sw cl res ss o (m + 11) hm
   | running =>
     cases hq : g.queue with
-    | nil => exact worker_empty g sw cl res o (m + 11) hm hq
+    | nil =>
+      have : nextMode g = .running := by simp [nextMode, hm, hq, headIsShutdown]
+      rw [this]; exact worker_empty g sw cl res ss o (m + 11) hm hq
     | cons ch q =>
       obtain ⟨cmd, h⟩ := ch
       cases cmd with
-      | shutdown => exact absurd hq (hns hm h q)
-      | updateWeight id w => exact worker_update g sw cl res o (m + 10) id w h q hm hq
-      | delete k => exact worker_delete g sw cl res o (m + 7) k h q hm hq
+      | shutdown =>
+        have : nextMode g = .draining := by simp [nextMode, hm, hq, headIsShutdown]
+        rw [this]; exact worker_shutdown g sw cl res ss o (m + 11) h q hm hq
+      | updateWeight id w =>
+        have : nextMode g = .running := by simp [nextMode, hm, hq, headIsShutdown]
+        rw [this]; exact worker_update g sw cl res ss o (m + 10) id w h q hm hq
+      | delete k =>
+        have : nextMode g = .running := by simp [nextMode, hm, hq, headIsShutdown]
+        rw [this]; exact worker_delete g sw cl res ss o (m + 7) k h q hm hq
       | put id hash w k v =>
-        exact worker_put g sw cl res o (m + 12) ⟨id, hash, w, k, v, none, h⟩ q hm hq (by omega)
+        have : nextMode g = .running := by simp [nextMode, hm, hq, headIsShutdown]
+        rw [this]
+        exact worker_put g sw cl res ss o (m + 12) ⟨id, hash, w, k, v, none, h⟩ q hm hq (by omega)
       | putTtl id hash w k v t =>
-        exact worker_put g sw cl res o (m + 12) ⟨id, hash, w, k, v, some t, h⟩ q hm hq (by omega)
+        have : nextMode g = .running := by simp [nextMode, hm, hq, headIsShutdown]
+        rw [this]
+        exact worker_put g sw cl res ss o (m + 12) ⟨id, hash, w, k, v, some t, h⟩ q hm hq (by omega)
 
-/-- Item 1 in the form asked for. `hns`: the command at the head of the queue is not `Shutdown` — for `Shutdown` the two
-    layers DIFFER in `g.worker` (see `worker_shutdown` and `worker_shutdown_drift`). No non-emptiness hypothesis is
-    needed. Fuel: `5 * |kw| + 12` (4 actions before the loop, 5 per eviction, 4 after it). -/
+/-- Item 1 in the form asked for, now WITHOUT any hypothesis on the command at the head of the queue: since the model
+    fix (`Shutdown` sets `g.worker := .draining` in Layer B as well) the `Shutdown` command is covered, with `b'.g = g'`
+    exactly and `b'.w = .drain` (`= pcOfMode g'.worker`). No non-emptiness hypothesis is needed.
+    `hsr`: nobody keeps a `get_ref` read guard (non-preempted fragment; the worker's store writes are not enabled
+    otherwise). Fuel: `5 * |kw| + 12` (4 actions before the loop, 5 per eviction, 4 after it). -/
 theorem worker_refines (b : BState) (o : Oracle) (fuel : Nat)
     (hw : b.w = .recv) (hrun : b.g.worker = .running) (hwu : b.wuOwner = none) (httl : b.ttlOwner = none)
-    (hfuel : workerFuel b ≤ fuel) (hns : ∀ h q, b.g.queue ≠ (.shutdown, h) :: q) :
+    (hsr : b.storeReaders = []) (hfuel : workerFuel b ≤ fuel) :
     (∀ g' out o', workerStep b.g o = .ok (g', out, o') →
       ∃ b', workerRun fuel b o = .ok (b', o') ∧ b'.g = g' ∧ b'.wuOwner = none ∧ b'.ttlOwner = none ∧
+        b'.storeReaders = [] ∧ b'.storeShard = b.storeShard ∧
         b'.sw = b.sw ∧ b'.cl = b.cl ∧ b'.res = b.res ∧ b'.w = pcOfMode g'.worker ∧
-        (match out with | .workerPanic _ => b'.w = .dead | _ => b'.w = .recv)) ∧
+        (match out with
+          | .workerPanic _ => b'.w = .dead
+          | _ => b'.w = if headIsShutdown b.g.queue then .drain else .recv)) ∧
     (∀ m, workerStep b.g o = .error m → ∃ m', workerRun fuel b o = .error m') := by
-  obtain ⟨g, w, sw, cl, res, wu, tt⟩ := b
-  simp only at hw hrun hwu httl hns
-  subst hw hwu httl
-  have h := worker_refines_core g sw cl res o fuel hfuel (fun _ => hns)
+  obtain ⟨g, w, sw, cl, res, wu, tt, sr, ss⟩ := b
+  simp only at hw hrun hwu httl hsr
+  subst hw hwu httl hsr
+  have h := worker_refines_core g sw cl res ss o fuel hfuel
   rw [hrun] at h
   simp only [pcOfMode] at h
   constructor
   · intro g' out o' hA
     rw [hA] at h
     simp only [WAgree] at h
-    refine ⟨_, h.1, rfl, rfl, rfl, rfl, rfl, rfl, rfl, ?_⟩
+    refine ⟨_, h.1, rfl, rfl, rfl, rfl, rfl, rfl, rfl, rfl, rfl, ?_⟩
     have h2 := h.2
-    cases out <;> simp only [] at h2 ⊢ <;> simp [h2, pcOfMode]
+    simp only [nextMode, hrun, true_and] at h2
+    cases out <;> simp only [] at h2 ⊢ <;> (try simp only [h2, pcOfMode]) <;>
+      (cases hh : headIsShutdown g.queue <;> simp [hh, pcOfMode])
   · intro m hA
     rw [hA] at h
     exact h
 
+/-- `worker_refines` for the `Shutdown` command, spelled out: the run ends with the worker draining in BOTH records. -/
+theorem worker_refines_shutdown (b : BState) (o : Oracle) (fuel : Nat) (h : Option Nat) (q : List (Cmd × Option Nat))
+    (hw : b.w = .recv) (hrun : b.g.worker = .running) (hwu : b.wuOwner = none) (httl : b.ttlOwner = none)
+    (hsr : b.storeReaders = []) (hfuel : workerFuel b ≤ fuel) (hq : b.g.queue = (.shutdown, h) :: q) :
+    ∃ g' out b', workerStep b.g o = .ok (g', out, o) ∧ workerRun fuel b o = .ok (b', o) ∧
+      b'.g = g' ∧ b'.w = .drain ∧ g'.worker = .draining := by
+  have hA : workerStep b.g o = .ok ({ b.g with queue := q, worker := .draining, acks := setAck b.g.acks h .accepted },
+      .worked "Shutdown" .accepted none [] [], o) := by
+    simp [workerStep, hrun, hq]
+  obtain ⟨b', h1, h2, _, _, _, _, _, _, _, h3, _⟩ := (worker_refines b o fuel hw hrun hwu httl hsr hfuel).1 _ _ _ hA
+  refine ⟨_, _, b', hA, h1, h2, ?_, rfl⟩
+  rw [h3]; rfl
+
 /-- The same for a worker that is draining (`b.w = .drain`, Layer A mode `.draining`). -/
 theorem worker_refines_drain (b : BState) (o : Oracle) (fuel : Nat)
     (hw : b.w = .drain) (hrun : b.g.worker = .draining) (hwu : b.wuOwner = none) (httl : b.ttlOwner = none)
-    (hfuel : 1 ≤ fuel) :
+    (hsr : b.storeReaders = []) (hfuel : 1 ≤ fuel) :
     (∀ g' out o', workerStep b.g o = .ok (g', out, o') →
       ∃ b', workerRun fuel b o = .ok (b', o') ∧ b'.g = g' ∧ b'.wuOwner = none ∧ b'.ttlOwner = none ∧
+        b'.storeReaders = [] ∧ b'.storeShard = b.storeShard ∧
         b'.sw = b.sw ∧ b'.cl = b.cl ∧ b'.res = b.res ∧ b'.w = .drain) ∧
     (∀ m, workerStep b.g o = .error m → ∃ m', workerRun fuel b o = .error m') := by
-  obtain ⟨g, w, sw, cl, res, wu, tt⟩ := b
-  simp only at hw hrun hwu httl
-  subst hw hwu httl
+  obtain ⟨g, w, sw, cl, res, wu, tt, sr, ss⟩ := b
+  simp only at hw hrun hwu httl hsr
+  subst hw hwu httl hsr
   obtain ⟨n, rfl⟩ : ∃ n, fuel = n + 1 := ⟨fuel - 1, by omega⟩
-  have h := worker_drain g sw cl res o n hrun
+  have h := worker_drain g sw cl res ss o n hrun
   constructor
   · intro g' out o' hA
     rw [hA] at h
@@ -611,7 +675,7 @@ theorem worker_refines_drain (b : BState) (o : Oracle) (fuel : Nat)
       · simp only [Except.ok.injEq, Prod.mk.injEq] at hA
         rw [← hA.1]
       · rename_i heq _; cases heq
-    refine ⟨_, h.1, rfl, rfl, rfl, rfl, rfl, rfl, ?_⟩
+    refine ⟨_, h.1, rfl, rfl, rfl, rfl, rfl, rfl, rfl, rfl, ?_⟩
     simp [h2, pcOfMode]
   · intro m hA
     rw [hA] at h
@@ -649,15 +713,14 @@ def gview (g : State) : GView := ⟨g.store, g.adm.used, g.adm.kw, g.ttl, g.queu
 /-- The hypotheses of `worker_refines` hold of `exB`; Layer A accepts the put after evicting keys 102 and 101. -/
 example :
     exB.w = .recv ∧ exB.g.worker = .running ∧ exB.wuOwner = none ∧ exB.ttlOwner = none ∧
-    (∀ h q, exB.g.queue ≠ (.shutdown, h) :: q) ∧
+    exB.storeReaders = [] ∧
     (match workerStep exB.g exO with
       | .ok (g', .worked _ st _ _ ev, o') => some (st, ev, o'.isEmpty, gview g')
       | _ => none) =
       some (.accepted, [(2, 102, 4), (1, 101, 2)], true,
         ⟨[(104, ⟨7, 4, none, false⟩), (103, ⟨3, 3, none, false⟩)], 9,
          [(4, ⟨104, 14, 6⟩), (3, ⟨103, 13, 3⟩)], [], [], [.accepted], [0, 0, 1, 2, 0, 0, 6, 6, 0, 0], .running⟩) := by
-  refine ⟨rfl, rfl, rfl, rfl, ?_, by decide⟩
-  intro h q e; cases e
+  exact ⟨rfl, rfl, rfl, rfl, rfl, by decide⟩
 
 /-- `workerRun` and `workerStep` give the same final shared state (here compared on all fields but the sketch,
     and as whole states by `rfl` below). -/
@@ -671,15 +734,22 @@ example :
     (match workerStep exB.g exO with | .ok (g', _, _) => some g' | _ => none) := by
   rfl
 
-/-- FINDING, concretely (`worker_shutdown`): after the `Shutdown` command Layer A's shared state says `.draining`,
-    Layer B's says `.running` (Layer B keeps the mode only in its pc `.drain`); all other fields agree. -/
-theorem worker_shutdown_drift :
+/-- The former finding `worker_shutdown_drift`, now positive: after the `Shutdown` command both layers' shared states
+    say `.draining` and agree on every field, and Layer B stands at `.drain`. -/
+theorem worker_shutdown_agrees :
     let b : BState := { g := { exG with queue := [(.shutdown, none)] }, cl := [.idle], res := [[]] }
     (match workerStep b.g {} with | .ok (g', _, _) => some (gview g') | _ => none) =
       some { gview exG with queue := [], worker := .draining } ∧
-    (match workerRun 1 b {} with | .ok (b', _) => some (gview b'.g, b'.w.atHead) | _ => none) =
-      some ({ gview exG with queue := [], worker := .running }, true) := by
-  decide
+    (match workerRun 1 b {} with | .ok (b', _) => some (gview b'.g, b'.w matches .drain) | _ => none) =
+      some ({ gview exG with queue := [], worker := .draining }, true) ∧
+    (match workerRun 1 b {}, workerStep b.g {} with | .ok (b', _), .ok (g', _, _) => some b'.g = some g' | _, _ => False) := by
+  refine ⟨by decide, by decide, rfl⟩
+
+/-- the hypotheses of `worker_refines_shutdown` hold of that state -/
+example :
+    let b : BState := { g := { exG with queue := [(.shutdown, none)] }, cl := [.idle], res := [[]] }
+    b.w = .recv ∧ b.g.worker = .running ∧ b.wuOwner = none ∧ b.ttlOwner = none ∧ b.storeReaders = [] ∧
+      b.g.queue = (.shutdown, none) :: [] := ⟨rfl, rfl, rfl, rfl, rfl, rfl⟩
 
 /-- The fuel `4 * |kw| + 12` suggested in the task is NOT sufficient in general: each eviction costs five actions
     (`evRemove, evSub, evStore, evSpace, fill`). With six charged keys that all have to go, Layer A succeeds,
@@ -706,10 +776,14 @@ example :
 
 /-! ## 3  clients -/
 
-/-- client `i` stands at its send and the command queue is full: the call blocks -/
+/-- client `i` stands at one of its blocking sends and is not enabled there: at `.send cmd` or at `shutdown`'s
+    `.shutSendCmd` with the command queue full (and the worker alive), or at `shutdown`'s `.shutSendBuf` with the buffer
+    queue full (and the consumer alive): the call blocks -/
 def parkedAt (b : BState) (i : Nat) : Bool :=
   match b.cl[i]? with
   | some (.send _) => b.g.worker != .dead && decide (b.g.queue.length ≥ b.g.cfg.cmdCap)
+  | some .shutSendCmd => b.g.worker != .dead && decide (b.g.queue.length ≥ b.g.cfg.cmdCap)
+  | some .shutSendBuf => b.g.consumerAlive && decide (b.g.bufq.length ≥ b.g.cfg.bufChanCap)
   | _ => false
 
 /-- Runs client `i` alone until it is `.idle` again or blocks at a full queue. -/
@@ -726,7 +800,7 @@ def clientRun : Nat → BState → Nat → Oracle → Except String (BState × O
 
 /-- one action of a client that is neither idle nor at its send -/
 theorem clientRun_act (n : Nat) (b : BState) (i : Nat) (o : Oracle) (pc : CPc) (hpc : b.cl[i]? = some pc)
-    (h1 : pc ≠ .idle) (h2 : ∀ c, pc ≠ .send c) :
+    (h1 : pc ≠ .idle) (h2 : ∀ c, pc ≠ .send c) (h3 : pc ≠ .shutSendCmd ∧ pc ≠ .shutSendBuf := by simp) :
     clientRun (n + 1) b i o =
       match clientAct b i o with
       | .error m => .error m
@@ -736,22 +810,22 @@ theorem clientRun_act (n : Nat) (b : BState) (i : Nat) (o : Oracle) (pc : CPc) (
 
 theorem none_bne_some (x : Nat) : ((none : Option Nat) != some x) = true := rfl
 
-theorem clientRun_act' (n : Nat) (g : State) (w : WPc) (sw : SPc) (cl : List CPc) (res : List (List Out))
-    (wu : Option Tid) (tt : Option Nat) (i : Nat) (o : Oracle) (pc : CPc) (hi : i < cl.length)
-    (h1 : pc ≠ .idle) (h2 : ∀ c, pc ≠ .send c) :
-    clientRun (n + 1) ⟨g, w, sw, cl.set i pc, res, wu, tt⟩ i o =
-      match clientAct ⟨g, w, sw, cl.set i pc, res, wu, tt⟩ i o with
+theorem clientRun_act' (n : Nat) (g : State) (w : WPc) (sw : SPc) (cl : List CPc) (res : List (List Out)) (ss : List (Nat × Nat))
+    (wu : Option Tid) (tt : Option Nat) (sr : List (Nat × Nat)) (i : Nat) (o : Oracle) (pc : CPc) (hi : i < cl.length)
+    (h1 : pc ≠ .idle) (h2 : ∀ c, pc ≠ .send c) (h3 : pc ≠ .shutSendCmd ∧ pc ≠ .shutSendBuf := by simp) :
+    clientRun (n + 1) ⟨g, w, sw, cl.set i pc, res, wu, tt, sr, ss⟩ i o =
+      match clientAct ⟨g, w, sw, cl.set i pc, res, wu, tt, sr, ss⟩ i o with
       | .error m => .error m
       | .ok (b', o') => clientRun n b' i o' :=
-  clientRun_act n _ i o pc (by simp [hi]) h1 h2
+  clientRun_act n _ i o pc (by simp [hi]) h1 h2 h3
 
 /-- Layer B from `send cmd` on: `CommandExecutor::send`, against Layer A's `sendCmd`. -/
-theorem run_send (g : State) (w : WPc) (sw : SPc) (cl : List CPc) (res : List (List Out)) (wu : Option Tid)
-    (tt : Option Nat) (i : Nat) (cmd : Cmd) (o : Oracle) (n : Nat) (hi : i < cl.length) :
-    clientRun (n + 2) ⟨g, w, sw, cl.set i (.send cmd), res, wu, tt⟩ i o =
+theorem run_send (g : State) (w : WPc) (sw : SPc) (cl : List CPc) (res : List (List Out)) (ss : List (Nat × Nat)) (wu : Option Tid)
+    (tt : Option Nat) (sr : List (Nat × Nat)) (i : Nat) (cmd : Cmd) (o : Oracle) (n : Nat) (hi : i < cl.length) :
+    clientRun (n + 2) ⟨g, w, sw, cl.set i (.send cmd), res, wu, tt, sr, ss⟩ i o =
       .ok (match (sendCmd g i cmd).2 with
-           | .parked => ⟨g, w, sw, cl.set i (.send cmd), res, wu, tt⟩
-           | out => ⟨(sendCmd g i cmd).1, w, sw, cl.set i .idle, res.set i (out :: res.getD i []), wu, tt⟩, o) := by
+           | .parked => ⟨g, w, sw, cl.set i (.send cmd), res, wu, tt, sr, ss⟩
+           | out => ⟨(sendCmd g i cmd).1, w, sw, cl.set i .idle, res.set i (out :: res.getD i []), wu, tt, sr, ss⟩, o) := by
   unfold sendCmd
   by_cases hd : g.worker = .dead
   · simp [clientRun, clientAct, sendAct, parkedAt, finishCall, hd, hi, List.set_set]
@@ -759,7 +833,7 @@ theorem run_send (g : State) (w : WPc) (sw : SPc) (cl : List CPc) (res : List (L
     · simp [clientRun, parkedAt, hd, hf, hi]
     · simp [clientRun, clientAct, sendAct, parkedAt, finishCall, hd, hf, hi, List.set_set]
 
-/-- Layer A's event for a Layer B request of client `c` -/
+/-- Layer A's event for a Layer B request of client `c` (`get_ref` is one of the single-key reads: Layer A's `.get`) -/
 def reqEv (c : Nat) : Req → Ev
   | .putW k v w none => .putW c k v w
   | .putW k v w (some t) => .putWTtl c k v w t
@@ -767,14 +841,23 @@ def reqEv (c : Nat) : Req → Ev
   | .get k => .get k
   | .weight => .weight
   | .upsert k v w ttl rm => .upsert c k v w ttl rm
+  | .getRef k => .get k
+  | .shutdown => .shutdown c
+
+/-- where the Layer B client stands when Layer A has parked its call with `pend[c] = p` -/
+def pcOfPending : Option Pending → CPc
+  | some (.send cmd) => .send cmd
+  | some .shutdownCmd => .shutSendCmd
+  | some .shutdownBuf => .shutSendBuf
+  | none => .idle
 
 /-- The Layer B state after client `i` has run, alone, a call that Layer A renders as `(g', out)`:
     completed — shared state `g'`, the client idle, `out` recorded; or parked (Layer A: `out = .parked` and a `pend`
-    entry, which Layer B does not keep) — the client stands at `.send cmd` with all effects so far applied. -/
+    entry, which Layer B does not keep) — the client stands at the send it blocks at (`.send cmd`; for `shutdown`:
+    `.shutSendCmd` / `.shutSendBuf`) with all effects so far applied. -/
 def afterCall (b : BState) (i : Nat) (g' : State) (out : Out) : BState :=
   match out with
-  | .parked => { b with g := { g' with pend := b.g.pend },
-                        cl := b.cl.set i (match g'.pend.get? i with | some (.send cmd) => .send cmd | _ => .idle) }
+  | .parked => { b with g := { g' with pend := b.g.pend }, cl := b.cl.set i (pcOfPending (g'.pend.get? i)) }
   | _ => { b with g := g', cl := b.cl.set i .idle, res := b.res.set i (out :: b.res.getD i []) }
 
 def CAgree (b : BState) (i : Nat) (ra : Except String (State × Out × Oracle))
@@ -783,10 +866,10 @@ def CAgree (b : BState) (i : Nat) (ra : Except String (State × Out × Oracle))
   | .ok (g', out, o') => rb = .ok (afterCall b i g' out, o')
   | .error _ => ∃ m, rb = .error m
 
-theorem client_get (g : State) (w : WPc) (sw : SPc) (cl : List CPc) (res : List (List Out)) (i k : Nat) (o : Oracle)
+theorem client_get (g : State) (w : WPc) (sw : SPc) (cl : List CPc) (res : List (List Out)) (ss : List (Nat × Nat)) (i k : Nat) (o : Oracle)
     (n : Nat) (hi : i < cl.length) :
-    CAgree ⟨g, w, sw, cl, res, none, none⟩ i (step g (.get k) o)
-      (clientRun (n + 4) ⟨g, w, sw, cl.set i (.start (.get k)), res, none, none⟩ i o) := by
+    CAgree ⟨g, w, sw, cl, res, none, none, [], ss⟩ i (step g (.get k) o)
+      (clientRun (n + 4) ⟨g, w, sw, cl.set i (.start (.get k)), res, none, none, [], ss⟩ i o) := by
   simp only [step, clientGet, readKey]
   by_cases hs : g.shutting = true
   · simp [clientRun, clientAct, parkedAt, finishCall, setClient, hs, hi, List.set_set, CAgree, afterCall]
@@ -805,45 +888,45 @@ theorem client_get (g : State) (w : WPc) (sw : SPc) (cl : List CPc) (res : List 
           simp [CAgree, afterCall, hi]
       · simp [clientRun, clientAct, parkedAt, finishCall, setClient, hs, hi, hk, ha, List.set_set, CAgree, afterCall]
 
-theorem client_weight (g : State) (w : WPc) (sw : SPc) (cl : List CPc) (res : List (List Out)) (i : Nat) (o : Oracle)
+theorem client_weight (g : State) (w : WPc) (sw : SPc) (cl : List CPc) (res : List (List Out)) (ss : List (Nat × Nat)) (i : Nat) (o : Oracle)
     (n : Nat) (hi : i < cl.length) :
-    CAgree ⟨g, w, sw, cl, res, none, none⟩ i (step g .weight o)
-      (clientRun (n + 3) ⟨g, w, sw, cl.set i (.start .weight), res, none, none⟩ i o) := by
+    CAgree ⟨g, w, sw, cl, res, none, none, [], ss⟩ i (step g .weight o)
+      (clientRun (n + 3) ⟨g, w, sw, cl.set i (.start .weight), res, none, none, [], ss⟩ i o) := by
   by_cases hs : g.shutting = true <;>
     simp [step, clientRun, clientAct, parkedAt, finishCall, setClient, wuFree, hs, hi, List.set_set, CAgree, afterCall]
 
 /-- how a call that ends in `sendCmd g1 i cmd` looks in Layer B, once the client stands at `.send cmd` -/
-theorem send_agree (g0 g1 : State) (w : WPc) (sw : SPc) (cl : List CPc) (res : List (List Out)) (wu : Option Tid)
-    (tt : Option Nat) (i : Nat) (cmd : Cmd) (o : Oracle) (n : Nat) (hi : i < cl.length) (hp : g1.pend = g0.pend) :
-    clientRun (n + 2) ⟨g1, w, sw, cl.set i (.send cmd), res, wu, tt⟩ i o =
-      .ok (afterCall ⟨g0, w, sw, cl, res, wu, tt⟩ i (sendCmd g1 i cmd).1 (sendCmd g1 i cmd).2, o) := by
-  rw [run_send _ _ _ _ _ _ _ _ _ _ _ hi]
+theorem send_agree (g0 g1 : State) (w : WPc) (sw : SPc) (cl : List CPc) (res : List (List Out)) (ss : List (Nat × Nat)) (wu : Option Tid)
+    (tt : Option Nat) (sr : List (Nat × Nat)) (i : Nat) (cmd : Cmd) (o : Oracle) (n : Nat) (hi : i < cl.length) (hp : g1.pend = g0.pend) :
+    clientRun (n + 2) ⟨g1, w, sw, cl.set i (.send cmd), res, wu, tt, sr, ss⟩ i o =
+      .ok (afterCall ⟨g0, w, sw, cl, res, wu, tt, sr, ss⟩ i (sendCmd g1 i cmd).1 (sendCmd g1 i cmd).2, o) := by
+  rw [run_send (hi := hi)]
   unfold sendCmd
   by_cases hd : g1.worker = .dead
   · simp [hd, afterCall]
   · by_cases hf : g1.queue.length ≥ g1.cfg.cmdCap
-    · simp [hd, hf, afterCall, ← hp]
+    · simp [hd, hf, afterCall, pcOfPending, ← hp]
     · simp [hd, hf, afterCall]
 
-theorem client_delete (g : State) (w : WPc) (sw : SPc) (cl : List CPc) (res : List (List Out)) (i k : Nat) (o : Oracle)
+theorem client_delete (g : State) (w : WPc) (sw : SPc) (cl : List CPc) (res : List (List Out)) (ss : List (Nat × Nat)) (i k : Nat) (o : Oracle)
     (n : Nat) (hi : i < cl.length) :
-    CAgree ⟨g, w, sw, cl, res, none, none⟩ i (step g (.delete i k) o)
-      (clientRun (n + 4) ⟨g, w, sw, cl.set i (.start (.delete k)), res, none, none⟩ i o) := by
+    CAgree ⟨g, w, sw, cl, res, none, none, [], ss⟩ i (step g (.delete i k) o)
+      (clientRun (n + 4) ⟨g, w, sw, cl.set i (.start (.delete k)), res, none, none, [], ss⟩ i o) := by
   simp only [step, clientDelete]
   by_cases hs : g.shutting = true
   · simp [clientRun, clientAct, parkedAt, finishCall, setClient, hs, hi, List.set_set, CAgree, afterCall]
   · simp only [hs, Bool.false_eq_true, if_false, CAgree]
-    refine Eq.trans ?_ (send_agree g _ w sw cl res none none i (.delete k) o n hi rfl)
+    refine Eq.trans ?_ (send_agree g _ w sw cl res ss none none [] i (.delete k) o n hi rfl)
     rw [clientRun_act (pc := .start (.delete k)) (hpc := by simp [hi]) (h1 := by simp) (h2 := by simp)]
     simp only [clientAct, hi, List.getElem?_set_self, hs, Bool.false_eq_true, if_false, setClient, List.set_set]
     rw [clientRun_act (pc := .delMark k) (hpc := by simp [hi]) (h1 := by simp) (h2 := by simp)]
     simp only [clientAct, hi, List.getElem?_set_self, hs, Bool.false_eq_true, if_false, setClient, List.set_set]
     rfl
 
-theorem client_putW (g : State) (w : WPc) (sw : SPc) (cl : List CPc) (res : List (List Out)) (i k v : Nat)
+theorem client_putW (g : State) (w : WPc) (sw : SPc) (cl : List CPc) (res : List (List Out)) (ss : List (Nat × Nat)) (i k v : Nat)
     (wt : Int) (ttl : Option Nat) (o : Oracle) (n : Nat) (hi : i < cl.length) :
-    CAgree ⟨g, w, sw, cl, res, none, none⟩ i (step g (reqEv i (.putW k v wt ttl)) o)
-      (clientRun (n + 5) ⟨g, w, sw, cl.set i (.start (.putW k v wt ttl)), res, none, none⟩ i o) := by
+    CAgree ⟨g, w, sw, cl, res, none, none, [], ss⟩ i (step g (reqEv i (.putW k v wt ttl)) o)
+      (clientRun (n + 5) ⟨g, w, sw, cl.set i (.start (.putW k v wt ttl)), res, none, none, [], ss⟩ i o) := by
   have hA : step g (reqEv i (.putW k v wt ttl)) o =
       .ok ((if g.shutting then (g, Out.err) else if wt ≤ 0 then (g, .panic .weightNotPositive)
             else clientPutChecked g i k v wt ttl).1,
@@ -864,7 +947,7 @@ theorem client_putW (g : State) (w : WPc) (sw : SPc) (cl : List CPc) (res : List
         cases ttl with
         | none =>
           simp only []
-          refine Eq.trans ?_ (send_agree g _ w sw cl res none none i _ o n hi rfl)
+          refine Eq.trans ?_ (send_agree g _ w sw cl res ss none none [] i _ o n hi rfl)
           rw [clientRun_act (pc := .start (.putW k v wt none)) (hpc := by simp [hi]) (h1 := by simp) (h2 := by simp)]
           simp only [clientAct, hi, List.getElem?_set_self, if_neg hs, if_neg hw, setClient, List.set_set]
           rw [clientRun_act (pc := .putPresent k v wt none) (hpc := by simp [hi]) (h1 := by simp) (h2 := by simp)]
@@ -873,7 +956,7 @@ theorem client_putW (g : State) (w : WPc) (sw : SPc) (cl : List CPc) (res : List
           simp only [clientAct, hi, List.getElem?_set_self, setClient, List.set_set]
         | some t =>
           simp only []
-          refine Eq.trans ?_ (send_agree g _ w sw cl res none none i _ o n hi rfl)
+          refine Eq.trans ?_ (send_agree g _ w sw cl res ss none none [] i _ o n hi rfl)
           rw [clientRun_act (pc := .start (.putW k v wt (some t))) (hpc := by simp [hi]) (h1 := by simp) (h2 := by simp)]
           simp only [clientAct, hi, List.getElem?_set_self, if_neg hs, if_neg hw, setClient, List.set_set]
           rw [clientRun_act (pc := .putPresent k v wt (some t)) (hpc := by simp [hi]) (h1 := by simp) (h2 := by simp)]
@@ -890,11 +973,11 @@ def upTailA (s2 : State) (c id : Nat) (uw2 : Option Int) : State × Out :=
     else sendCmd s2 c (.updateWeight id weight)
   | none => spotAck s2 .accepted
 
-theorem up_tail (g0 g2 : State) (w : WPc) (sw : SPc) (cl : List CPc) (res : List (List Out)) (wu : Option Tid)
-    (tt : Option Nat) (i id : Nat) (uw : Option Int) (pc : CPc) (o : Oracle) (n : Nat) (hi : i < cl.length)
+theorem up_tail (g0 g2 : State) (w : WPc) (sw : SPc) (cl : List CPc) (res : List (List Out)) (ss : List (Nat × Nat)) (wu : Option Tid)
+    (tt : Option Nat) (sr : List (Nat × Nat)) (i id : Nat) (uw : Option Int) (pc : CPc) (o : Oracle) (n : Nat) (hi : i < cl.length)
     (hp : g2.pend = g0.pend) :
-    clientRun (n + 2) (upAfterIndex ⟨g2, w, sw, cl.set i pc, res, wu, tt⟩ i id uw) i o =
-      .ok (afterCall ⟨g0, w, sw, cl, res, wu, tt⟩ i (upTailA g2 i id uw).1 (upTailA g2 i id uw).2, o) := by
+    clientRun (n + 2) (upAfterIndex ⟨g2, w, sw, cl.set i pc, res, wu, tt, sr, ss⟩ i id uw) i o =
+      .ok (afterCall ⟨g0, w, sw, cl, res, wu, tt, sr, ss⟩ i (upTailA g2 i id uw).1 (upTailA g2 i id uw).2, o) := by
   unfold upAfterIndex upTailA
   cases uw with
   | none => simp [spotFinish, spotAck, finishCall, clientRun, hi, List.set_set, afterCall]
@@ -905,13 +988,13 @@ theorem up_tail (g0 g2 : State) (w : WPc) (sw : SPc) (cl : List CPc) (res : List
     · by_cases h2 : weight ≤ 0
       · simp [h1, h2, finishCall, clientRun, hi, List.set_set, afterCall]
       · simp only [if_neg h1, if_neg h2, setClient, List.set_set]
-        exact send_agree g0 g2 w sw cl res wu tt i _ o n hi hp
+        exact send_agree g0 g2 w sw cl res ss wu tt sr i _ o n hi hp
 
-theorem run_idNext (g0 g : State) (w : WPc) (sw : SPc) (cl : List CPc) (res : List (List Out)) (wu : Option Tid)
-    (tt : Option Nat) (i k val : Nat) (weight : Int) (ttl : Option Nat) (o : Oracle) (n : Nat) (hi : i < cl.length)
+theorem run_idNext (g0 g : State) (w : WPc) (sw : SPc) (cl : List CPc) (res : List (List Out)) (ss : List (Nat × Nat)) (wu : Option Tid)
+    (tt : Option Nat) (sr : List (Nat × Nat)) (i k val : Nat) (weight : Int) (ttl : Option Nat) (o : Oracle) (n : Nat) (hi : i < cl.length)
     (hp : g.pend = g0.pend) :
-    clientRun (n + 3) ⟨g, w, sw, cl.set i (.idNext k val weight ttl), res, wu, tt⟩ i o =
-      .ok (afterCall ⟨g0, w, sw, cl, res, wu, tt⟩ i
+    clientRun (n + 3) ⟨g, w, sw, cl.set i (.idNext k val weight ttl), res, wu, tt, sr, ss⟩ i o =
+      .ok (afterCall ⟨g0, w, sw, cl, res, wu, tt, sr, ss⟩ i
         (sendCmd { g with nextId := g.nextId + 1 } i
           (match ttl with
             | some t => .putTtl g.nextId (g.cfg.hashOf k) weight k val t
@@ -920,7 +1003,7 @@ theorem run_idNext (g0 g : State) (w : WPc) (sw : SPc) (cl : List CPc) (res : Li
           (match ttl with
             | some t => .putTtl g.nextId (g.cfg.hashOf k) weight k val t
             | none => .put g.nextId (g.cfg.hashOf k) weight k val)).2, o) := by
-  refine Eq.trans ?_ (send_agree g0 _ w sw cl res wu tt i _ o n hi hp)
+  refine Eq.trans ?_ (send_agree g0 _ w sw cl res ss wu tt sr i _ o n hi hp)
   rw [clientRun_act (pc := .idNext k val weight ttl) (hpc := by simp [hi]) (h1 := by simp) (h2 := by simp)]
   cases ttl <;> simp only [clientAct, hi, List.getElem?_set_self, setClient, List.set_set]
 
@@ -933,11 +1016,11 @@ def upIndexA (s1 : State) (id : Nat) (uw : Option Int) (old new : Option Nat) : 
   | .updated old n => (ttlUpdate s1 id old n, uw)
   | .nothing => (s1, uw)
 
-theorem run_upWeightOf (g0 g1 : State) (w : WPc) (sw : SPc) (cl : List CPc) (res : List (List Out))
+theorem run_upWeightOf (g0 g1 : State) (w : WPc) (sw : SPc) (cl : List CPc) (res : List (List Out)) (ss : List (Nat × Nat))
     (i id : Nat) (uw : Option Int) (old new : Option Nat) (o : Oracle) (n : Nat) (hi : i < cl.length)
     (hp : g1.pend = g0.pend) :
-    clientRun (n + 5) ⟨g1, w, sw, cl.set i (.upWeightOf id uw old new), res, none, none⟩ i o =
-      .ok (afterCall ⟨g0, w, sw, cl, res, none, none⟩ i
+    clientRun (n + 5) ⟨g1, w, sw, cl.set i (.upWeightOf id uw old new), res, none, none, [], ss⟩ i o =
+      .ok (afterCall ⟨g0, w, sw, cl, res, none, none, [], ss⟩ i
         (upTailA (upIndexA g1 id uw old new).1 i id (upIndexA g1 id uw old new).2).1
         (upTailA (upIndexA g1 id uw old new).1 i id (upIndexA g1 id uw old new).2).2, o) := by
   rw [clientRun_act (pc := .upWeightOf id uw old new) (hpc := by simp [hi]) (h1 := by simp) (h2 := by simp)]
@@ -945,29 +1028,29 @@ theorem run_upWeightOf (g0 g1 : State) (w : WPc) (sw : SPc) (cl : List CPc) (res
   cases typeOfExpiryUpdate old new with
   | nothing =>
     simp only []
-    exact up_tail g0 g1 w sw cl res none none i id uw _ o (n + 2) hi hp
+    exact up_tail g0 g1 w sw cl res ss none none [] i id uw _ o (n + 2) hi hp
   | added e =>
     simp only []
     rw [clientRun_act' (hi := hi) (h1 := by simp) (h2 := by simp)]
     simp only [clientAct, hi, List.getElem?_set_self, ttlFree, none_bne_some, Bool.not_true, Bool.false_eq_true, if_false]
-    exact up_tail g0 (ttlPut g1 id e) w sw cl res none none i id _ _ o (n + 1) hi hp
+    exact up_tail g0 (ttlPut g1 id e) w sw cl res ss none none [] i id _ _ o (n + 1) hi hp
   | deleted e =>
     simp only []
     rw [clientRun_act' (hi := hi) (h1 := by simp) (h2 := by simp)]
     simp only [clientAct, hi, List.getElem?_set_self, ttlFree, none_bne_some, Bool.not_true, Bool.false_eq_true, if_false]
-    exact up_tail g0 (ttlDelete g1 id e) w sw cl res none none i id _ _ o (n + 1) hi hp
+    exact up_tail g0 (ttlDelete g1 id e) w sw cl res ss none none [] i id _ _ o (n + 1) hi hp
   | updated e e' =>
     simp only []
     rw [clientRun_act' (hi := hi) (h1 := by simp) (h2 := by simp)]
     simp only [clientAct, hi, List.getElem?_set_self, ttlFree, none_bne_some, Bool.not_true, Bool.false_eq_true, if_false, setClient, List.set_set]
     rw [clientRun_act' (hi := hi) (h1 := by simp) (h2 := by simp)]
     simp only [clientAct, hi, List.getElem?_set_self, ttlFree, none_bne_some, Bool.not_true, Bool.false_eq_true, if_false]
-    exact up_tail g0 (ttlUpdate g1 id e e') w sw cl res none none i id _ _ o n hi hp
+    exact up_tail g0 (ttlUpdate g1 id e e') w sw cl res ss none none [] i id _ _ o n hi hp
 
-theorem client_upsert (g : State) (w : WPc) (sw : SPc) (cl : List CPc) (res : List (List Out)) (i k : Nat)
+theorem client_upsert (g : State) (w : WPc) (sw : SPc) (cl : List CPc) (res : List (List Out)) (ss : List (Nat × Nat)) (i k : Nat)
     (v : Option Nat) (wt : Option Int) (ttl : Option Nat) (rm : Bool) (o : Oracle) (n : Nat) (hi : i < cl.length) :
-    CAgree ⟨g, w, sw, cl, res, none, none⟩ i (step g (.upsert i k v wt ttl rm) o)
-      (clientRun (n + 7) ⟨g, w, sw, cl.set i (.start (.upsert k v wt ttl rm)), res, none, none⟩ i o) := by
+    CAgree ⟨g, w, sw, cl, res, none, none, [], ss⟩ i (step g (.upsert i k v wt ttl rm) o)
+      (clientRun (n + 7) ⟨g, w, sw, cl.set i (.start (.upsert k v wt ttl rm)), res, none, none, [], ss⟩ i o) := by
   simp only [step, CAgree]
   unfold clientUpsert
   by_cases hs : g.shutting = true
@@ -976,7 +1059,8 @@ theorem client_upsert (g : State) (w : WPc) (sw : SPc) (cl : List CPc) (res : Li
     rw [clientRun_act (pc := .start (.upsert k v wt ttl rm)) (hpc := by simp [hi]) (h1 := by simp) (h2 := by simp)]
     simp only [clientAct, hi, List.getElem?_set_self, if_neg hs, setClient, List.set_set]
     rw [clientRun_act (pc := .upUpdate k v wt ttl rm) (hpc := by simp [hi]) (h1 := by simp) (h2 := by simp)]
-    simp only [clientAct, hi, List.getElem?_set_self, setClient, List.set_set]
+    simp only [clientAct, hi, List.getElem?_set_self, setClient, List.set_set, storeWritable_mk_nil, Bool.not_true,
+      Bool.false_eq_true, if_false]
     cases hk : g.store.get? k with
     | none =>
       simp only []
@@ -990,46 +1074,189 @@ theorem client_upsert (g : State) (w : WPc) (sw : SPc) (cl : List CPc) (res : Li
           by_cases hx : x ≤ 0
           · simp [hx, finishCall, clientRun, hi, List.set_set, afterCall]
           · simp only [if_neg hx]
-            rw [run_idNext g g w sw cl res none none i k val x ttl o (n + 2) hi rfl]
+            rw [run_idNext g g w sw cl res ss none none [] i k val x ttl o (n + 2) hi rfl]
             cases ttl <;> rfl
         | none =>
           simp only [Option.map]
           by_cases hx : g.cfg.weightOf val ttl.isSome ≤ 0
           · simp [hx, finishCall, clientRun, hi, List.set_set, afterCall]
           · simp only [if_neg hx]
-            rw [run_idNext g g w sw cl res none none i k val _ ttl o (n + 2) hi rfl]
+            rw [run_idNext g g w sw cl res ss none none [] i k val _ ttl o (n + 2) hi rfl]
             cases ttl <;> rfl
     | some e =>
       cases rm with
       | true =>
         simp only [if_true]
-        exact run_upWeightOf g _ w sw cl res i e.id _ e.expiry none o n hi rfl
+        exact run_upWeightOf g _ w sw cl res ss i e.id _ e.expiry none o n hi rfl
       | false =>
         simp only [Bool.false_eq_true, if_false]
         cases ttl with
-        | none => exact run_upWeightOf g _ w sw cl res i e.id _ e.expiry e.expiry o n hi rfl
+        | none => exact run_upWeightOf g _ w sw cl res ss i e.id _ e.expiry e.expiry o n hi rfl
         | some t =>
           simp only []
           cases addTime g.now t with
           | none => simp [finishCall, clientRun, hi, List.set_set, afterCall]
-          | some x => exact run_upWeightOf g _ w sw cl res i e.id _ e.expiry (some x) o n hi rfl
+          | some x => exact run_upWeightOf g _ w sw cl res ss i e.id _ e.expiry (some x) o n hi rfl
+
+/-! ### `get_ref` -/
+
+/-- `get_ref`: `refStore` takes the shard's read guard on a hit, `refPool` releases it — within the run; at the end
+    `storeReaders` is `[]` again and everything else is as for `get`: one Layer A event `.get k`. -/
+theorem client_getRef (g : State) (w : WPc) (sw : SPc) (cl : List CPc) (res : List (List Out)) (ss : List (Nat × Nat)) (i k : Nat) (o : Oracle)
+    (n : Nat) (hi : i < cl.length) :
+    CAgree ⟨g, w, sw, cl, res, none, none, [], ss⟩ i (step g (.get k) o)
+      (clientRun (n + 4) ⟨g, w, sw, cl.set i (.start (.getRef k)), res, none, none, [], ss⟩ i o) := by
+  simp only [step, clientGet, readKey]
+  by_cases hs : g.shutting = true
+  · simp [clientRun, clientAct, parkedAt, finishCall, setClient, hs, hi, List.set_set, CAgree, afterCall]
+  · cases hk : g.store.get? k with
+    | none =>
+      simp [clientRun, clientAct, parkedAt, finishCall, setClient, hs, hi, hk, List.set_set, CAgree, afterCall]
+    | some e =>
+      by_cases ha : e.alive g.now = true
+      · simp only [clientRun, clientAct, parkedAt, finishCall, setClient, hs, hi, hk, ha, List.set_set,
+          List.getElem?_set_self, if_true, Bool.false_eq_true, if_false]
+        generalize poolAdd _ _ _ = pr
+        cases pr with
+        | error m => simp [CAgree]
+        | ok r =>
+          obtain ⟨g1, o1⟩ := r
+          simp [CAgree, afterCall, hi]
+      · simp [clientRun, clientAct, parkedAt, finishCall, setClient, hs, hi, hk, ha, List.set_set, CAgree, afterCall]
+
+/-! ### `shutdown` -/
+
+/-- one action of a client that is neither idle nor blocked at one of its sends -/
+theorem clientRun_step (n : Nat) (b : BState) (i : Nat) (o : Oracle) (h1 : b.cl[i]? ≠ some .idle)
+    (h2 : parkedAt b i = false) :
+    clientRun (n + 1) b i o =
+      match clientAct b i o with
+      | .error m => .error m
+      | .ok (b', o') => clientRun n b' i o' := by
+  simp only [clientRun, h2, Bool.false_eq_true, if_false]
+
+/-- a client that is blocked at one of its sends does nothing -/
+theorem clientRun_parked (n : Nat) (b : BState) (i : Nat) (o : Oracle) (h : parkedAt b i = true) :
+    clientRun (n + 1) b i o = .ok (b, o) := by
+  simp only [clientRun, h]
+  split <;> rfl
+
+/-- Layer B from `.shutConsumerFlag` to the end of `shutdown`: the eight actions after the two sends are
+    `shutdownFinish` (no lock is owned and nobody keeps a read guard, so each of them is enabled). -/
+theorem run_shutFinish (g : State) (w : WPc) (sw : SPc) (cl : List CPc) (res : List (List Out)) (ss : List (Nat × Nat))
+    (i : Nat) (o : Oracle) (n : Nat) (hi : i < cl.length) :
+    clientRun (n + 9) ⟨g, w, sw, cl.set i .shutConsumerFlag, res, none, none, [], ss⟩ i o =
+      .ok (⟨shutdownFinish g, w, sw, cl.set i .idle, res.set i (.none :: res.getD i []), none, none, [], ss⟩, o) := by
+  simp [clientRun, clientAct, parkedAt, finishCall, setClient, wuFree, hi, List.set_set, shutdownFinish]
+
+/-- Layer B from `.shutSendBuf` on, against Layer A's `shutdownSendBuf` (`g0`: the state the call started in). -/
+theorem run_shutSendBuf (g0 g1 : State) (w : WPc) (sw : SPc) (cl : List CPc) (res : List (List Out)) (ss : List (Nat × Nat))
+    (i : Nat) (o : Oracle) (n : Nat) (hi : i < cl.length) (hp : g1.pend = g0.pend) :
+    clientRun (n + 10) ⟨g1, w, sw, cl.set i .shutSendBuf, res, none, none, [], ss⟩ i o =
+      .ok (afterCall ⟨g0, w, sw, cl, res, none, none, [], ss⟩ i (shutdownSendBuf g1 i).1 (shutdownSendBuf g1 i).2, o) := by
+  unfold shutdownSendBuf
+  by_cases hc : g1.consumerAlive = true
+  · by_cases hf : g1.bufq.length ≥ g1.cfg.bufChanCap
+    · rw [clientRun_parked (h := by simp [parkedAt, hi, hc, hf])]
+      rw [if_neg (show ¬ ((!g1.consumerAlive) = true) by simp [hc]), if_pos hf]
+      simp [afterCall, pcOfPending, ← hp]
+    · rw [clientRun_step (h1 := by simp [hi]) (h2 := by simp [parkedAt, hi, hc, hf])]
+      simp only [clientAct, hi, List.getElem?_set_self, hc, hf, setClient, List.set_set, Bool.not_true,
+        Bool.false_eq_true, if_false]
+      rw [run_shutFinish (hi := hi)]
+      simp [afterCall]
+  · rw [clientRun_step (h1 := by simp [hi]) (h2 := by simp [parkedAt, hi, hc])]
+    simp only [clientAct, hi, List.getElem?_set_self, hc, setClient, List.set_set, Bool.not_false, if_true]
+    rw [run_shutFinish (hi := hi)]
+    simp [afterCall]
+
+/-- Layer B from `.shutSendCmd` on, against Layer A's `shutdownSendCmd`. -/
+theorem run_shutSendCmd (g0 g1 : State) (w : WPc) (sw : SPc) (cl : List CPc) (res : List (List Out)) (ss : List (Nat × Nat))
+    (i : Nat) (o : Oracle) (n : Nat) (hi : i < cl.length) (hp : g1.pend = g0.pend) :
+    clientRun (n + 11) ⟨g1, w, sw, cl.set i .shutSendCmd, res, none, none, [], ss⟩ i o =
+      .ok (afterCall ⟨g0, w, sw, cl, res, none, none, [], ss⟩ i (shutdownSendCmd g1 i).1 (shutdownSendCmd g1 i).2, o) := by
+  unfold shutdownSendCmd
+  by_cases hd : g1.worker = .dead
+  · rw [clientRun_step (h1 := by simp [hi]) (h2 := by simp [parkedAt, hi, hd])]
+    simp only [clientAct, hi, List.getElem?_set_self, hd, setClient, List.set_set, if_true]
+    exact run_shutSendBuf g0 g1 w sw cl res ss i o n hi hp
+  · by_cases hf : g1.queue.length ≥ g1.cfg.cmdCap
+    · simp [clientRun, parkedAt, hd, hf, hi, afterCall, pcOfPending, ← hp]
+    · rw [clientRun_step (h1 := by simp [hi]) (h2 := by simp [parkedAt, hi, hd, hf])]
+      simp only [clientAct, hi, List.getElem?_set_self, hd, hf, setClient, List.set_set, if_false]
+      exact run_shutSendBuf g0 _ w sw cl res ss i o n hi hp
+
+/-- `shutdown`: `start → shutCas → shutSendCmd → shutSendBuf → (eight clearing actions)` is `clientShutdown`;
+    the run stops where Layer A parks (`afterCall`: at `.shutSendCmd` ↔ `pend[i] = .shutdownCmd`,
+    at `.shutSendBuf` ↔ `pend[i] = .shutdownBuf`). 13 iterations suffice (12 actions and the final idle test). -/
+theorem client_shutdown (g : State) (w : WPc) (sw : SPc) (cl : List CPc) (res : List (List Out)) (ss : List (Nat × Nat))
+    (i : Nat) (o : Oracle) (n : Nat) (hi : i < cl.length) :
+    CAgree ⟨g, w, sw, cl, res, none, none, [], ss⟩ i (step g (.shutdown i) o)
+      (clientRun (n + 13) ⟨g, w, sw, cl.set i (.start .shutdown), res, none, none, [], ss⟩ i o) := by
+  simp only [step, clientShutdown, CAgree]
+  by_cases hs : g.shutting = true
+  · simp [clientRun, clientAct, parkedAt, finishCall, setClient, hs, hi, List.set_set, afterCall]
+  · simp only [if_neg hs]
+    rw [clientRun_step (h1 := by simp [hi]) (h2 := by simp [parkedAt, hi])]
+    simp only [clientAct, hi, List.getElem?_set_self, hs, setClient, List.set_set, Bool.false_eq_true, if_false]
+    rw [clientRun_step (h1 := by simp [hi]) (h2 := by simp [parkedAt, hi])]
+    simp only [clientAct, hi, List.getElem?_set_self, hs, setClient, List.set_set, Bool.false_eq_true, if_false]
+    exact run_shutSendCmd g _ w sw cl res ss i o n hi rfl
+
+/-- explicit sufficient fuel for one client call (iterations of `clientRun`) -/
+def reqFuel : Req → Nat
+  | .shutdown => 13
+  | _ => 8
 
 /-- **Clients (item 3).** Client `i` runs request `r` with nobody else moving: same shared state, same recorded result
-    as the Layer A call; a call that Layer A reports as `.parked` leaves the Layer B client at `.send cmd` with the
-    queue full and its effects so far applied (`afterCall`); illegal oracles are illegal on both sides. -/
+    as the Layer A call; a call that Layer A reports as `.parked` leaves the Layer B client at the send it blocks at
+    (`.send cmd`, `.shutSendCmd`, `.shutSendBuf`) with that queue full and its effects so far applied (`afterCall`);
+    illegal oracles are illegal on both sides. `getRef k` is Layer A's `.get k`, `shutdown` is `Ev.shutdown i`.
+    `hsr`: nobody keeps a `get_ref` read guard when the call starts (non-preempted fragment); nobody does when it
+    ends (`afterCall_storeReaders`). Fuel: 8 iterations, 13 for `shutdown` (so `14 ≤ fuel` is enough for every request:
+    `client_refines_14`). -/
 theorem client_refines (b : BState) (i : Nat) (r : Req) (o : Oracle) (fuel : Nat) (hi : i < b.cl.length)
-    (hwu : b.wuOwner = none) (httl : b.ttlOwner = none) (hf : 8 ≤ fuel) :
+    (hwu : b.wuOwner = none) (httl : b.ttlOwner = none) (hsr : b.storeReaders = []) (hf : reqFuel r ≤ fuel) :
     CAgree b i (step b.g (reqEv i r) o) (clientRun fuel (setClient b i (.start r)) i o) := by
-  obtain ⟨g, w, sw, cl, res, wu, tt⟩ := b
-  simp only at hi hwu httl
-  subst hwu httl
-  obtain ⟨n, rfl⟩ : ∃ n, fuel = n + 8 := ⟨fuel - 8, by omega⟩
+  obtain ⟨g, w, sw, cl, res, wu, tt, sr, ss⟩ := b
+  simp only at hi hwu httl hsr
+  subst hwu httl hsr
   cases r with
-  | putW k v wt ttl => exact client_putW g w sw cl res i k v wt ttl o (n + 3) hi
-  | delete k => exact client_delete g w sw cl res i k o (n + 4) hi
-  | get k => exact client_get g w sw cl res i k o (n + 4) hi
-  | weight => exact client_weight g w sw cl res i o (n + 5) hi
-  | upsert k v wt ttl rm => exact client_upsert g w sw cl res i k v wt ttl rm o (n + 1) hi
+  | shutdown =>
+    obtain ⟨n, rfl⟩ : ∃ n, fuel = n + 13 := ⟨fuel - 13, by simp only [reqFuel] at hf; omega⟩
+    exact client_shutdown g w sw cl res ss i o n hi
+  | putW k v wt ttl =>
+    obtain ⟨n, rfl⟩ : ∃ n, fuel = n + 8 := ⟨fuel - 8, by simp only [reqFuel] at hf; omega⟩
+    exact client_putW g w sw cl res ss i k v wt ttl o (n + 3) hi
+  | delete k =>
+    obtain ⟨n, rfl⟩ : ∃ n, fuel = n + 8 := ⟨fuel - 8, by simp only [reqFuel] at hf; omega⟩
+    exact client_delete g w sw cl res ss i k o (n + 4) hi
+  | get k =>
+    obtain ⟨n, rfl⟩ : ∃ n, fuel = n + 8 := ⟨fuel - 8, by simp only [reqFuel] at hf; omega⟩
+    exact client_get g w sw cl res ss i k o (n + 4) hi
+  | weight =>
+    obtain ⟨n, rfl⟩ : ∃ n, fuel = n + 8 := ⟨fuel - 8, by simp only [reqFuel] at hf; omega⟩
+    exact client_weight g w sw cl res ss i o (n + 5) hi
+  | upsert k v wt ttl rm =>
+    obtain ⟨n, rfl⟩ : ∃ n, fuel = n + 8 := ⟨fuel - 8, by simp only [reqFuel] at hf; omega⟩
+    exact client_upsert g w sw cl res ss i k v wt ttl rm o (n + 1) hi
+  | getRef k =>
+    obtain ⟨n, rfl⟩ : ∃ n, fuel = n + 8 := ⟨fuel - 8, by simp only [reqFuel] at hf; omega⟩
+    exact client_getRef g w sw cl res ss i k o (n + 4) hi
+
+theorem reqFuel_le (r : Req) : reqFuel r ≤ 14 := by cases r <;> simp [reqFuel]
+
+/-- `client_refines` with one fuel bound for every request -/
+theorem client_refines_14 (b : BState) (i : Nat) (r : Req) (o : Oracle) (fuel : Nat) (hi : i < b.cl.length)
+    (hwu : b.wuOwner = none) (httl : b.ttlOwner = none) (hsr : b.storeReaders = []) (hf : 14 ≤ fuel) :
+    CAgree b i (step b.g (reqEv i r) o) (clientRun fuel (setClient b i (.start r)) i o) :=
+  client_refines b i r o fuel hi hwu httl hsr (Nat.le_trans (reqFuel_le r) hf)
+
+/-- the read guard of `get_ref` does not outlive the run: `afterCall` leaves the locks and guards as they were -/
+theorem afterCall_storeReaders (b : BState) (i : Nat) (g' : State) (out : Out) :
+    (afterCall b i g' out).storeReaders = b.storeReaders ∧ (afterCall b i g' out).storeShard = b.storeShard ∧
+    (afterCall b i g' out).wuOwner = b.wuOwner ∧ (afterCall b i g' out).ttlOwner = b.ttlOwner := by
+  cases out <;> exact ⟨rfl, rfl, rfl, rfl⟩
 
 /-! ## 4  the sweeper -/
 
@@ -1067,16 +1294,16 @@ def visitOrder (rest : List (Nat × Nat)) (vs : List Nat) : List (Nat × Nat) :=
 def ValidVisits (rest : List (Nat × Nat)) (vs : List Nat) : Prop :=
   vs.Nodup ∧ ∀ id, id ∈ vs ↔ id ∈ rest.map Prod.fst
 
-theorem sweeperRun_fin (n : Nat) (g : State) (w : WPc) (cl : List CPc) (res : List (List Out)) (wu : Option Tid)
-    (tt : Option Nat) :
-    sweeperRun (n + 1) ⟨g, w, .fin, cl, res, wu, tt⟩ [] =
-      .ok ⟨{ g with sweeperAlive := g.sweeperKeep }, w, .begin, cl, res, wu, tt⟩ := by
+theorem sweeperRun_fin (n : Nat) (g : State) (w : WPc) (cl : List CPc) (res : List (List Out)) (ss : List (Nat × Nat)) (wu : Option Tid)
+    (tt : Option Nat) (sr : List (Nat × Nat)) :
+    sweeperRun (n + 1) ⟨g, w, .fin, cl, res, wu, tt, sr, ss⟩ [] =
+      .ok ⟨{ g with sweeperAlive := g.sweeperKeep }, w, .begin, cl, res, wu, tt, sr, ss⟩ := by
   simp [sweeperRun, sweeperAct]
 
-theorem sweeperRun_entry (n : Nat) (g : State) (w : WPc) (cl : List CPc) (res : List (List Out)) (wu : Option Tid)
-    (tt : Option Nat) (now shard : Nat) (rest : List (Nat × Nat)) (v : Nat) (vs : List Nat) :
-    sweeperRun (n + 1) ⟨g, w, .entry now shard rest, cl, res, wu, tt⟩ (v :: vs) =
-      match sweeperAct ⟨g, w, .entry now shard rest, cl, res, wu, tt⟩ (some v) with
+theorem sweeperRun_entry (n : Nat) (g : State) (w : WPc) (cl : List CPc) (res : List (List Out)) (ss : List (Nat × Nat)) (wu : Option Tid)
+    (tt : Option Nat) (sr : List (Nat × Nat)) (now shard : Nat) (rest : List (Nat × Nat)) (v : Nat) (vs : List Nat) :
+    sweeperRun (n + 1) ⟨g, w, .entry now shard rest, cl, res, wu, tt, sr, ss⟩ (v :: vs) =
+      match sweeperAct ⟨g, w, .entry now shard rest, cl, res, wu, tt, sr, ss⟩ (some v) with
       | .error m => .error m
       | .ok b' => sweeperRun n b' vs := by
   simp only [sweeperRun]
@@ -1086,21 +1313,21 @@ theorem sweeperRun_other (n : Nat) (b : BState) (vs : List Nat) (h1 : ∀ a c r,
       match sweeperAct b none with
       | .error m => .error m
       | .ok b' => sweeperRun n b' vs := by
-  obtain ⟨g, w, sw, cl, res, wu, tt⟩ := b
+  obtain ⟨g, w, sw, cl, res, wu, tt, sr, ss⟩ := b
   cases sw with
   | fin => exact absurd rfl h2
   | entry a c r => exact absurd rfl (h1 a c r)
   | _ => simp only [sweeperRun]
 
 /-- One visited entry: `entry (→ kwRemove (→ sub → store))`, then whatever follows (`hcont`). -/
-theorem run_visit (g : State) (w : WPc) (cl : List CPc) (res : List (List Out)) (now shard : Nat)
+theorem run_visit (g : State) (w : WPc) (cl : List CPc) (res : List (List Out)) (ss : List (Nat × Nat)) (now shard : Nat)
     (rest : List (Nat × Nat)) (v e : Nat) (vs : List Nat) (n : Nat) (R : Except String BState)
     (hfind : rest.find? (fun p => p.1 == v) = some (v, e))
     (hcont : ∀ (sw0 : SPc) (n' : Nat), 4 * (rest.filter (fun p => p.1 != v)).length + 1 ≤ n' →
-      sweeperRun n' (sweepNext ⟨visitG now shard g (v, e), w, sw0, cl, res, none, some shard⟩ now shard
+      sweeperRun n' (sweepNext ⟨visitG now shard g (v, e), w, sw0, cl, res, none, some shard, [], ss⟩ now shard
         (rest.filter (fun p => p.1 != v))) vs = R)
     (hn : 4 * (rest.filter (fun p => p.1 != v)).length + 5 ≤ n) :
-    sweeperRun n ⟨g, w, .entry now shard rest, cl, res, none, some shard⟩ (v :: vs) = R := by
+    sweeperRun n ⟨g, w, .entry now shard rest, cl, res, none, some shard, [], ss⟩ (v :: vs) = R := by
   obtain ⟨m, rfl⟩ : ∃ m, n = m + 4 := ⟨n - 4, by omega⟩
   rw [sweeperRun_entry]
   simp only [sweeperAct, hfind]
@@ -1206,12 +1433,12 @@ theorem foldl_visitG_keep (now shard : Nat) (l : List (Nat × Nat)) : ∀ (g : S
 
 /-- The sweeper from its first entry to `.begin`, for ANY visiting order: the shared state is the fold of `visitG`
     over the entries in the order visited. -/
-theorem sweep_entries_run (w : WPc) (cl : List CPc) (res : List (List Out)) (now shard : Nat) :
+theorem sweep_entries_run (w : WPc) (cl : List CPc) (res : List (List Out)) (ss : List (Nat × Nat)) (now shard : Nat) :
     ∀ (vs : List Nat) (rest : List (Nat × Nat)) (g : State) (sw0 : SPc) (n : Nat),
       ValidVisits rest vs → 4 * rest.length + 1 ≤ n →
-      sweeperRun n (sweepNext ⟨g, w, sw0, cl, res, none, some shard⟩ now shard rest) vs =
+      sweeperRun n (sweepNext ⟨g, w, sw0, cl, res, none, some shard, [], ss⟩ now shard rest) vs =
         .ok ⟨{ (visitOrder rest vs).foldl (visitG now shard) g with sweeperAlive := g.sweeperKeep },
-             w, .begin, cl, res, none, none⟩ := by
+             w, .begin, cl, res, none, none, [], ss⟩ := by
   intro vs
   induction vs with
   | nil =>
@@ -1220,7 +1447,7 @@ theorem sweep_entries_run (w : WPc) (cl : List CPc) (res : List (List Out)) (now
     subst this
     obtain ⟨m, rfl⟩ : ∃ m, n = m + 1 := ⟨n - 1, by omega⟩
     simp only [sweepNext, visitOrder, List.filterMap_nil, List.foldl_nil]
-    exact sweeperRun_fin m g w cl res none none
+    exact sweeperRun_fin m g w cl res ss none none []
   | cons v vs ih =>
     intro rest g sw0 n hv hn
     obtain ⟨e, hfind, hv', hord⟩ := hv.cons_step
@@ -1233,7 +1460,7 @@ theorem sweep_entries_run (w : WPc) (cl : List CPc) (res : List (List Out)) (now
     | cons p r =>
       simp only [sweepNext]
       rw [hord, List.foldl_cons]
-      refine run_visit g w cl res now shard (p :: r) v e vs n _ hfind ?_ (by omega)
+      refine run_visit g w cl res ss now shard (p :: r) v e vs n _ hfind ?_ (by omega)
       intro sw1 n' hn'
       rw [ih _ _ sw1 n' hv' hn', visitG_keep]
 
@@ -1563,16 +1790,16 @@ theorem sweep_state_eq (g : State) (vs : List Nat) (hnd : AMap.NoDup g.ttl)
 
 /-- Layer B alone: one sweep from `.begin` back to `.begin` in visiting order `vs` folds `visitG` over the entries
     in that order. -/
-theorem sweeper_run (g : State) (w : WPc) (cl : List CPc) (res : List (List Out)) (vs : List Nat) (n : Nat)
+theorem sweeper_run (g : State) (w : WPc) (cl : List CPc) (res : List (List Out)) (ss : List (Nat × Nat)) (vs : List Nat) (n : Nat)
     (halive : g.sweeperAlive = true) (hv : ValidVisits (shardEntries g) vs)
     (hn : 4 * (shardEntries g).length + 2 ≤ n) :
-    sweeperRun n ⟨g, w, .begin, cl, res, none, none⟩ vs =
+    sweeperRun n ⟨g, w, .begin, cl, res, none, none, [], ss⟩ vs =
       .ok ⟨{ (visitOrder (shardEntries g) vs).foldl (visitG g.now (secsOf g.now % g.cfg.shards)) g with
-              sweeperAlive := g.sweeperKeep }, w, .begin, cl, res, none, none⟩ := by
+              sweeperAlive := g.sweeperKeep }, w, .begin, cl, res, none, none, [], ss⟩ := by
   obtain ⟨m, rfl⟩ : ∃ m, n = m + 1 := ⟨n - 1, by omega⟩
   rw [sweeperRun_other _ _ _ (by simp) (by simp)]
   simp only [sweeperAct, halive, Bool.not_true, Bool.false_eq_true, if_false]
-  exact sweep_entries_run w cl res g.now _ vs (shardEntries g) g .begin m hv (by omega)
+  exact sweep_entries_run w cl res ss g.now _ vs (shardEntries g) g .begin m hv (by omega)
 
 /-- **Sweeper (item 2), full permutation statement.** For EVERY visiting order `vs` that visits each entry of the
     shard (due or not) exactly once, the non-preempted Layer B sweep ends in exactly the shared state of Layer A's
@@ -1580,17 +1807,17 @@ theorem sweeper_run (g : State) (w : WPc) (cl : List CPc) (res : List (List Out)
     hash map's iteration order. `hnd`: the expiry index has unique keys (an invariant of reachable states;
     without it Layer B's `ttl.del` and Layer A's `filter` differ on duplicated keys). -/
 theorem sweeper_refines (b : BState) (vs : List Nat) (fuel : Nat)
-    (hsw : b.sw = .begin) (hwu : b.wuOwner = none) (httl : b.ttlOwner = none)
+    (hsw : b.sw = .begin) (hwu : b.wuOwner = none) (httl : b.ttlOwner = none) (hsr : b.storeReaders = [])
     (hnd : AMap.NoDup b.g.ttl) (hv : ValidVisits (shardEntries b.g) vs)
     (hfuel : 4 * (shardEntries b.g).length + 2 ≤ fuel) :
     match sweepStep b.g with
     | .ok (g', _) => sweeperRun fuel b vs = .ok { b with g := g' }
     | .error _ => ∃ m, sweeperRun fuel b vs = .error m := by
-  obtain ⟨g, w, sw, cl, res, wu, tt⟩ := b
-  simp only at hsw hwu httl hnd hv hfuel
-  subst hsw hwu httl
+  obtain ⟨g, w, sw, cl, res, wu, tt, sr, ss⟩ := b
+  simp only at hsw hwu httl hsr hnd hv hfuel
+  subst hsw hwu httl hsr
   by_cases halive : g.sweeperAlive = true
-  · have hrun := sweeper_run g w cl res vs fuel halive hv hfuel
+  · have hrun := sweeper_run g w cl res ss vs fuel halive hv hfuel
     cases hA : sweepStep g with
     | error m => simp [sweepStep, halive] at hA
     | ok r =>
@@ -1646,12 +1873,60 @@ theorem upTailA_parkedOK (s : State) (c id : Nat) (uw : Option Int) : ParkedOK c
       · exact sendCmd_parkedOK _ _ _
   · intro h; simp [isParked, spotAck] at h
 
+/-- a Layer A result that, IF it is `.parked`, comes from one of the two sends of `shutdown()` of client `c`:
+    of `Shutdown` at a full command queue, or of `BufferEvent::Shutdown` at a full buffer queue -/
+def ParkedShut (c : Nat) (x : State × Out) : Prop :=
+  isParked x.2 = true →
+    (x.1.pend.get? c = some .shutdownCmd ∧ x.1.worker ≠ .dead ∧ x.1.queue.length ≥ x.1.cfg.cmdCap) ∨
+    (x.1.pend.get? c = some .shutdownBuf ∧ x.1.consumerAlive = true ∧ x.1.bufq.length ≥ x.1.cfg.bufChanCap)
+
+theorem shutdownSendBuf_parkedShut (s : State) (c : Nat) : ParkedShut c (shutdownSendBuf s c) := by
+  unfold shutdownSendBuf
+  split
+  · intro h; simp [isParked] at h
+  · split
+    · rename_i hc hf
+      intro _
+      exact Or.inr ⟨by simp, by simpa using hc, hf⟩
+    · intro h; simp [isParked] at h
+
+theorem shutdownSendCmd_parkedShut (s : State) (c : Nat) : ParkedShut c (shutdownSendCmd s c) := by
+  unfold shutdownSendCmd
+  split
+  · exact shutdownSendBuf_parkedShut _ _
+  · split
+    · rename_i hd hf
+      intro _
+      exact Or.inl ⟨by simp, hd, hf⟩
+    · exact shutdownSendBuf_parkedShut _ _
+
+/-- **`.parked` of a Layer A `shutdown` = the Layer B client at `.shutSendCmd` with the command queue full, or at
+    `.shutSendBuf` with the buffer queue full** (`afterCall`/`pcOfPending` put the client there; it is not enabled). -/
+theorem parked_is_shutdown_send (g : State) (c : Nat) (o : Oracle) (g' : State) (out : Out) (o' : Oracle)
+    (h : step g (.shutdown c) o = .ok (g', out, o')) : ParkedShut c (g', out) := by
+  simp only [step, clientShutdown, Except.ok.injEq, Prod.mk.injEq] at h
+  rw [← h.1, ← h.2.1]
+  split
+  · intro h; simp [isParked] at h
+  · exact shutdownSendCmd_parkedShut _ _
+
 /-- **`.parked` in Layer A = the Layer B client at `.send cmd` with the queue full**: whenever a covered client call
-    returns `.parked`, Layer A has recorded `pend[c] = .send cmd` (so `afterCall` puts the Layer B client at
-    `.send cmd`), the worker is alive and the queue is full (so that client is indeed not enabled). -/
+    other than `shutdown` (for which see `parked_is_shutdown_send`) returns `.parked`, Layer A has recorded
+    `pend[c] = .send cmd` (so `afterCall` puts the Layer B client at `.send cmd`), the worker is alive and the queue is
+    full (so that client is indeed not enabled). `hr` is new only because `Req` has grown: for the five requests the
+    theorem was stated for before (and for `getRef`) it is the old statement. -/
 theorem parked_is_send (g : State) (c : Nat) (r : Req) (o : Oracle) (g' : State) (out : Out) (o' : Oracle)
+    (hr : r ≠ .shutdown)
     (h : step g (reqEv c r) o = .ok (g', out, o')) : ParkedOK c (g', out) := by
   cases r with
+  | shutdown => exact absurd rfl hr
+  | getRef k =>
+    simp only [reqEv, step, clientGet] at h
+    split at h
+    · simp only [Except.ok.injEq, Prod.mk.injEq] at h; rw [← h.2.1]; intro h; simp [isParked] at h
+    · split at h
+      · simp only [Except.ok.injEq, Prod.mk.injEq] at h; rw [← h.2.1]; intro h; simp [isParked] at h
+      · cases h
   | putW k v w ttl =>
     have : (g', out) = (if g.shutting then (g, Out.err) else if w ≤ 0 then (g, .panic .weightNotPositive)
             else clientPutChecked g c k v w ttl) := by
@@ -1684,6 +1959,7 @@ theorem parked_is_send (g : State) (c : Nat) (r : Req) (o : Oracle) (g' : State)
     simp only [reqEv, step, Except.ok.injEq, Prod.mk.injEq] at h
     rw [← h.2.1]; intro h; simp [isParked] at h
   | upsert k v w ttl rm =>
+    clear hr
     simp only [reqEv, step, Except.ok.injEq, Prod.mk.injEq] at h
     rw [← h.1, ← h.2.1]
     clear h
@@ -1728,6 +2004,138 @@ theorem parked_is_send (g : State) (c : Nat) (r : Req) (o : Oracle) (g' : State)
             cases addTime g.now t with
             | none => intro h; simp [isParked] at h
             | some x => exact key (some x)
+
+/-- **Uniformly: a parked Layer A call is a Layer B client that is not enabled.** Whatever the request, if Layer A
+    answers `.parked`, the Layer B client `afterCall` describes stands at one of its blocking sends with that queue
+    full (`parkedAt`), i.e. `clientAct` is not enabled for it and `clientRun` stops there. -/
+theorem parked_not_enabled (b : BState) (i : Nat) (r : Req) (o : Oracle) (g' : State) (out : Out) (o' : Oracle)
+    (hi : i < b.cl.length) (h : step b.g (reqEv i r) o = .ok (g', out, o')) (hp : isParked out = true) :
+    parkedAt (afterCall b i g' out) i = true := by
+  have hout : out = .parked := by cases out <;> simp [isParked] at hp ⊢
+  subst hout
+  have key : (∃ cmd, g'.pend.get? i = some (.send cmd) ∧ g'.worker ≠ .dead ∧ g'.queue.length ≥ g'.cfg.cmdCap) ∨
+      (g'.pend.get? i = some .shutdownCmd ∧ g'.worker ≠ .dead ∧ g'.queue.length ≥ g'.cfg.cmdCap) ∨
+      (g'.pend.get? i = some .shutdownBuf ∧ g'.consumerAlive = true ∧ g'.bufq.length ≥ g'.cfg.bufChanCap) := by
+    cases r with
+    | shutdown => exact Or.inr (parked_is_shutdown_send _ _ _ _ _ _ h rfl)
+    | putW k v w t => exact Or.inl (parked_is_send _ _ _ _ _ _ _ (fun e => by cases e) h rfl)
+    | delete k => exact Or.inl (parked_is_send _ _ _ _ _ _ _ (fun e => by cases e) h rfl)
+    | get k => exact Or.inl (parked_is_send _ _ _ _ _ _ _ (fun e => by cases e) h rfl)
+    | weight => exact Or.inl (parked_is_send _ _ _ _ _ _ _ (fun e => by cases e) h rfl)
+    | upsert k v w t rm => exact Or.inl (parked_is_send _ _ _ _ _ _ _ (fun e => by cases e) h rfl)
+    | getRef k => exact Or.inl (parked_is_send _ _ _ _ _ _ _ (fun e => by cases e) h rfl)
+  rcases key with ⟨cmd, h1, h2, h3⟩ | ⟨h1, h2, h3⟩ | ⟨h1, h2, h3⟩
+  · simp [parkedAt, afterCall, hi, h1, pcOfPending, h2, h3]
+  · simp [parkedAt, afterCall, hi, h1, pcOfPending, h2, h3]
+  · simp [parkedAt, afterCall, hi, h1, pcOfPending, h2, h3]
+
+/-! ### `resume`: a parked call continues from the send it stands at -/
+
+theorem afterCall_set (g0 g1 : State) (w : WPc) (sw : SPc) (cl : List CPc) (res : List (List Out)) (wu : Option Tid)
+    (tt : Option Nat) (sr ss : List (Nat × Nat)) (i : Nat) (pc : CPc) (g' : State) (out : Out) (hp : g0.pend = g1.pend) :
+    afterCall ⟨g0, w, sw, cl.set i pc, res, wu, tt, sr, ss⟩ i g' out =
+      afterCall ⟨g1, w, sw, cl, res, wu, tt, sr, ss⟩ i g' out := by
+  cases out <;> simp [afterCall, List.set_set, hp]
+
+/-- **A parked Layer A call followed by `resume` = the Layer B client going on from the send it stands at.**
+    `s` is a Layer A state in which the call of client `i` is parked (`pend[i] = p`), `b` a Layer B state with the same
+    shared state (up to the `pend` entry, which Layer B does not keep: `hg`) in which client `i` stands at the
+    corresponding send (`hpc`: `.send cmd` / `.shutSendCmd` / `.shutSendBuf`), nobody else in the middle of anything.
+    Then `resume s i` is legal exactly if that client is enabled, and running it alone gives Layer A's result —
+    completed (`shutdownFinish` applied for a `shutdown`), or parked again at the second send of `shutdown`.
+    If `resume` is not legal (the queue is still full) the Layer B client is not enabled and `clientRun` does nothing. -/
+theorem resume_refines (b : BState) (i : Nat) (s : State) (p : Pending) (o : Oracle) (fuel : Nat)
+    (hwu : b.wuOwner = none) (httl : b.ttlOwner = none) (hsr : b.storeReaders = [])
+    (hp : s.pend.get? i = some p) (hg : b.g = { s with pend := s.pend.del i })
+    (hpc : b.cl[i]? = some (pcOfPending (some p))) (hf : 12 ≤ fuel) :
+    match resume s i with
+    | .ok r => clientRun fuel b i o = .ok (afterCall b i r.1 r.2, o)
+    | .error _ => parkedAt b i = true ∧ clientRun fuel b i o = .ok (b, o) := by
+  obtain ⟨g, w, sw, cl, res, wu, tt, sr, ss⟩ := b
+  simp only at hwu httl hsr hg hpc
+  subst hwu httl hsr hg
+  obtain ⟨hi, heq⟩ := List.getElem?_eq_some_iff.mp hpc
+  have hcl : cl.set i (pcOfPending (some p)) = cl := by rw [← heq]; exact List.set_getElem_self _
+  obtain ⟨n, rfl⟩ : ∃ n, fuel = n + 12 := ⟨fuel - 12, by omega⟩
+  clear hpc heq
+  rw [← hcl]
+  simp only [resume, hp]
+  cases p with
+  | send cmd =>
+    simp only [pcOfPending]
+    by_cases hd : s.worker = .dead
+    · rw [if_neg (by simp [hd])]
+      simp only []
+      rw [afterCall_set (hp := rfl)]
+      exact send_agree _ _ w sw cl res ss none none [] i cmd o (n + 10) hi rfl
+    · by_cases hfull : s.queue.length ≥ s.cfg.cmdCap
+      · rw [if_pos (by simp [hd, hfull])]
+        simp only []
+        have hpk : parkedAt ⟨{ s with pend := s.pend.del i }, w, sw, cl.set i (.send cmd), res, none, none, [], ss⟩ i = true := by
+          simp [parkedAt, hi, hd, hfull]
+        exact ⟨hpk, clientRun_parked _ _ _ _ hpk⟩
+      · rw [if_neg (by simp [hfull])]
+        simp only []
+        rw [afterCall_set (hp := rfl)]
+        exact send_agree _ _ w sw cl res ss none none [] i cmd o (n + 10) hi rfl
+  | shutdownCmd =>
+    simp only [pcOfPending]
+    by_cases hd : s.worker = .dead
+    · rw [if_neg (by simp [hd])]
+      simp only []
+      rw [afterCall_set (hp := rfl)]
+      exact run_shutSendCmd _ _ w sw cl res ss i o (n + 1) hi rfl
+    · by_cases hfull : s.queue.length ≥ s.cfg.cmdCap
+      · rw [if_pos (by simp [hd, hfull])]
+        simp only []
+        have hpk : parkedAt ⟨{ s with pend := s.pend.del i }, w, sw, cl.set i .shutSendCmd, res, none, none, [], ss⟩ i = true := by
+          simp [parkedAt, hi, hd, hfull]
+        exact ⟨hpk, clientRun_parked _ _ _ _ hpk⟩
+      · rw [if_neg (by simp [hfull])]
+        simp only []
+        rw [afterCall_set (hp := rfl)]
+        exact run_shutSendCmd _ _ w sw cl res ss i o (n + 1) hi rfl
+  | shutdownBuf =>
+    simp only [pcOfPending]
+    by_cases hc : s.consumerAlive = true
+    · by_cases hfull : s.bufq.length ≥ s.cfg.bufChanCap
+      · rw [if_pos (by simp [hc, hfull])]
+        simp only []
+        have hpk : parkedAt ⟨{ s with pend := s.pend.del i }, w, sw, cl.set i .shutSendBuf, res, none, none, [], ss⟩ i = true := by
+          simp [parkedAt, hi, hc, hfull]
+        exact ⟨hpk, clientRun_parked _ _ _ _ hpk⟩
+      · rw [if_neg (by simp [hfull])]
+        simp only []
+        rw [afterCall_set (hp := rfl)]
+        exact run_shutSendBuf _ _ w sw cl res ss i o (n + 2) hi rfl
+    · rw [if_neg (by simp [hc])]
+      simp only []
+      rw [afterCall_set (hp := rfl)]
+      exact run_shutSendBuf _ _ w sw cl res ss i o (n + 2) hi rfl
+
+theorem amap_set_del_absent {α β : Type} [DecidableEq α] (m : AMap α β) (a : α) (x : β) (h : m.get? a = none) :
+    (m.set a x).del a = m := by
+  simp [AMap.set, AMap.del, amap_del_absent _ _ h]
+
+/-- a parked `shutdown` has recorded exactly one new `pend` entry, for the caller -/
+theorem shutdown_parked_pend (g : State) (c : Nat) (o : Oracle) (g' : State) (o' : Oracle)
+    (h : step g (.shutdown c) o = .ok (g', .parked, o')) :
+    g'.pend = g.pend.set c .shutdownCmd ∨ g'.pend = g.pend.set c .shutdownBuf := by
+  simp only [step, clientShutdown, Except.ok.injEq, Prod.mk.injEq] at h
+  obtain ⟨h1, h2, _⟩ := h
+  split at h1
+  · rename_i hs; rw [if_pos hs] at h2; cases h2
+  · rename_i hs
+    rw [if_neg hs] at h2
+    revert h1 h2
+    unfold shutdownSendCmd shutdownSendBuf
+    simp only []
+    repeat' split
+    all_goals intro h1 h2
+    all_goals first
+      | (cases h1; done)
+      | (rw [← h2]; exact Or.inl rfl)
+      | (rw [← h2]; exact Or.inr rfl)
 
 /-! ### non-vacuity for the clients -/
 
@@ -1904,10 +2312,38 @@ theorem readKey_worker (s : State) (k : Nat) (o : Oracle) (s1 : State) (v : Opti
     · simp only [Except.ok.injEq, Prod.mk.injEq] at hr; rw [← hr.1]
   · simp only [Except.ok.injEq, Prod.mk.injEq] at hr; rw [← hr.1]
 
+theorem shutdownSendBuf_worker (s : State) (c : Nat) : (shutdownSendBuf s c).1.worker = s.worker := by
+  unfold shutdownSendBuf; split
+  · rfl
+  · split <;> rfl
+
+theorem shutdownSendCmd_worker (s : State) (c : Nat) : (shutdownSendCmd s c).1.worker = s.worker := by
+  unfold shutdownSendCmd; split
+  · exact shutdownSendBuf_worker _ _
+  · split
+    · rfl
+    · exact (shutdownSendBuf_worker _ _).trans rfl
+
 /-- client calls do not touch the worker's mode -/
 theorem step_client_worker (g : State) (c : Nat) (r : Req) (o : Oracle) (g' : State) (out : Out) (o' : Oracle)
     (h : step g (reqEv c r) o = .ok (g', out, o')) : g'.worker = g.worker := by
   cases r with
+  | shutdown =>
+    simp only [reqEv, step, clientShutdown, Except.ok.injEq, Prod.mk.injEq] at h
+    rw [← h.1]
+    split
+    · rfl
+    · exact (shutdownSendCmd_worker _ _).trans rfl
+  | getRef k =>
+    simp only [reqEv, step, clientGet] at h
+    split at h
+    · simp only [Except.ok.injEq, Prod.mk.injEq] at h; rw [← h.1]
+    · split at h
+      · rename_i s1 v o1 hr
+        simp only [Except.ok.injEq, Prod.mk.injEq] at h
+        rw [← h.1]
+        exact readKey_worker _ _ _ _ _ _ hr
+      · cases h
   | putW k v w ttl =>
     have : g' = (if g.shutting then (g, Out.err) else if w ≤ 0 then (g, .panic .weightNotPositive)
             else clientPutChecked g c k v w ttl).1 := by
@@ -2017,13 +2453,14 @@ theorem consumerStep_worker (g g' : State) (o o' : Oracle) (out : Out) (h : cons
       · cases h
       · split at h <;> (simp only [Except.ok.injEq, Prod.mk.injEq] at h; rw [← h.1])
 
-/-- Layer B is at rest: every thread stands between two Layer A events and no lock is owned.
+/-- Layer B is at rest: every thread stands between two Layer A events, no lock is owned and no read guard is kept.
     The worker's pc is the one that belongs to the mode the shared state records. -/
 def atRest (b : BState) : Prop :=
-  b.w = pcOfMode b.g.worker ∧ b.sw = .begin ∧ (∀ pc ∈ b.cl, pc = .idle) ∧ b.wuOwner = none ∧ b.ttlOwner = none
+  b.w = pcOfMode b.g.worker ∧ b.sw = .begin ∧ (∀ pc ∈ b.cl, pc = .idle) ∧ b.wuOwner = none ∧ b.ttlOwner = none ∧
+    b.storeReaders = []
 
-/-- the Layer A events covered (`put`/`putTtl` compute a weight and call these; `multiGet`, `stats`, `shutdown`,
-    `resume`, `poll` are not programs of Layer B) -/
+/-- the Layer A events covered (`put`/`putTtl` compute a weight and call these; `multiGet`, `stats`, `poll` are not
+    programs of Layer B; `resume`: see `resume_refines`) -/
 inductive Covered : Ev → Prop
   | putW (c k v w) : Covered (.putW c k v w)
   | putWTtl (c k v w t) : Covered (.putWTtl c k v w t)
@@ -2035,16 +2472,17 @@ inductive Covered : Ev → Prop
   | sweep : Covered .sweep
   | consumer : Covered .consumer
   | advance (d) : Covered (.advance d)
+  | shutdown (c) : Covered (.shutdown c)
 
 /-- the client thread an event belongs to (`get` and `weight` carry none in Layer A: thread 0 runs them) -/
 def evClient : Ev → Nat
-  | .putW c _ _ _ | .putWTtl c _ _ _ _ | .delete c _ | .upsert c _ _ _ _ _ => c
+  | .putW c _ _ _ | .putWTtl c _ _ _ _ | .delete c _ | .upsert c _ _ _ _ _ | .shutdown c => c
   | _ => 0
 
 theorem afterCall_atRest (b : BState) (i : Nat) (g' : State) (out : Out) (hb : atRest b)
     (hw : g'.worker = b.g.worker) (hnp : isParked out = false) :
     atRest (afterCall b i g' out) ∧ (afterCall b i g' out).g = g' := by
-  obtain ⟨h1, h2, h3, h4, h5⟩ := hb
+  obtain ⟨h1, h2, h3, h4, h5, h6⟩ := hb
   have hcl : ∀ pc ∈ b.cl.set i .idle, pc = .idle := by
     intro pc hpc
     rcases List.mem_or_eq_of_mem_set hpc with h | h
@@ -2052,13 +2490,13 @@ theorem afterCall_atRest (b : BState) (i : Nat) (g' : State) (out : Out) (hb : a
     · exact h
   cases out <;> first
     | (simp [isParked] at hnp; done)
-    | exact ⟨⟨by simp only [afterCall, hw, h1], h2, hcl, h4, h5⟩, rfl⟩
+    | exact ⟨⟨by simp only [afterCall, hw, h1], h2, hcl, h4, h5, h6⟩, rfl⟩
 
 theorem client_event_run (b : BState) (i : Nat) (r : Req) (o : Oracle) (g' : State) (out : Out) (o' : Oracle)
     (hb : atRest b) (hi : i < b.cl.length) (h : step b.g (reqEv i r) o = .ok (g', out, o'))
     (hnp : isParked out = false) :
     ∃ acts b', runActs b acts o = .ok (b', o') ∧ atRest b' ∧ b'.g = g' := by
-  have C := client_refines b i r o 8 hi hb.2.2.2.1 hb.2.2.2.2 (Nat.le_refl _)
+  have C := client_refines b i r o 14 hi hb.2.2.2.1 hb.2.2.2.2.1 hb.2.2.2.2.2 (reqFuel_le r)
   rw [h] at C
   simp only [CAgree] at C
   obtain ⟨k, hk⟩ := runActs_client _ _ _ _ _ _ C
@@ -2069,18 +2507,18 @@ theorem client_event_run (b : BState) (i : Nat) (r : Req) (o : Oracle) (g' : Sta
   refine ⟨.issue i r :: List.replicate k (.client i), _, ?_, hR.1, hR.2⟩
   simp [runActs, stepB, issue, hidle, hk]
 
-/-- **Item 4.** Every covered Layer A event, taken from a Layer B state at rest, is the execution of a list of
-    Layer B actions that ends at rest with the same shared state.
+/-- **Item 4.** Every covered Layer A event — `shutdown` and the worker's `Shutdown` command included —, taken from a
+    Layer B state at rest, is the execution of a list of Layer B actions that ends at rest with the same shared state.
     Side conditions (each one necessary):
     * `hcl`  the calling client thread exists (`get`/`weight`: thread 0);
     * `hnp`  the call does not block at a full queue — then Layer A writes a `pend` entry that Layer B does not keep and
-             the Layer B client stands at `.send cmd`, not at rest: that case is `client_refines`/`afterCall`;
-    * `hns`  the worker event does not process `Shutdown` — there the layers differ in `g.worker` (`worker_shutdown`);
-    * `hnd`  for a sweep, the expiry index has unique keys. -/
+             the Layer B client stands at its send, not at rest: that case is `client_refines`/`afterCall`, and its
+             continuation is `resume_refines`;
+    * `hnd`  for a sweep, the expiry index has unique keys.
+    (The former side condition `hns`, "the worker event does not process `Shutdown`", is gone with the model fix.) -/
 theorem layerA_step_is_layerB_run (b : BState) (ev : Ev) (o : Oracle) (g' : State) (out : Out) (o' : Oracle)
     (hcov : Covered ev) (hb : atRest b) (h : step b.g ev o = .ok (g', out, o'))
     (hcl : evClient ev < b.cl.length) (hnp : isParked out = false)
-    (hns : ev = .worker → b.g.worker = .running → ∀ h q, b.g.queue ≠ (.shutdown, h) :: q)
     (hnd : ev = .sweep → AMap.NoDup b.g.ttl) :
     ∃ acts b', runActs b acts o = .ok (b', o') ∧ atRest b' ∧ b'.g = g' := by
   cases hcov with
@@ -2090,18 +2528,19 @@ theorem layerA_step_is_layerB_run (b : BState) (ev : Ev) (o : Oracle) (g' : Stat
   | get k => exact client_event_run b 0 (.get k) o g' out o' hb hcl h hnp
   | weight => exact client_event_run b 0 .weight o g' out o' hb hcl h hnp
   | upsert c k v w t rm => exact client_event_run b c (.upsert k v w t rm) o g' out o' hb hcl h hnp
+  | shutdown c => exact client_event_run b c .shutdown o g' out o' hb hcl h hnp
   | worker =>
-    obtain ⟨g, w, sw, cl, res, wu, tt⟩ := b
-    obtain ⟨h1, h2, h3, h4, h5⟩ := hb
-    simp only at h1 h2 h3 h4 h5 h hns
-    subst h1 h2 h4 h5
-    have W := worker_refines_core g .begin cl res o (5 * g.adm.kw.length + 12) (Nat.le_refl _) (hns trivial)
+    obtain ⟨g, w, sw, cl, res, wu, tt, sr, ss⟩ := b
+    obtain ⟨h1, h2, h3, h4, h5, h6⟩ := hb
+    simp only at h1 h2 h3 h4 h5 h6 h
+    subst h1 h2 h4 h5 h6
+    have W := worker_refines_core g .begin cl res ss o (5 * g.adm.kw.length + 12) (Nat.le_refl _)
     simp only [step] at h
     rw [h] at W
     obtain ⟨k, hk⟩ := runActs_worker _ _ _ _ _ W.1
-    exact ⟨_, _, hk, ⟨rfl, rfl, h3, rfl, rfl⟩, rfl⟩
+    exact ⟨_, _, hk, ⟨rfl, rfl, h3, rfl, rfl, rfl⟩, rfl⟩
   | sweep =>
-    obtain ⟨h1, h2, h3, h4, h5⟩ := hb
+    obtain ⟨h1, h2, h3, h4, h5, h6⟩ := hb
     simp only [step] at h
     cases hS : sweepStep b.g with
     | error m => simp [hS] at h
@@ -2111,33 +2550,172 @@ theorem layerA_step_is_layerB_run (b : BState) (ev : Ev) (o : Oracle) (g' : Stat
       obtain ⟨rfl, rfl, rfl⟩ := h
       have hnodup := shardEntries_nodup b.g (hnd rfl)
       have hv : ValidVisits (shardEntries b.g) ((shardEntries b.g).map Prod.fst) := ⟨hnodup, fun _ => Iff.rfl⟩
-      have S := sweeper_refines b _ _ h2 h4 h5 (hnd rfl) hv (Nat.le_refl _)
+      have S := sweeper_refines b _ _ h2 h4 h5 h6 (hnd rfl) hv (Nat.le_refl _)
       rw [hS] at S
       obtain ⟨acts, hk⟩ := runActs_sweeper _ _ _ o _ S
-      refine ⟨acts, _, hk, ⟨?_, h2, h3, h4, h5⟩, rfl⟩
+      refine ⟨acts, _, hk, ⟨?_, h2, h3, h4, h5, h6⟩, rfl⟩
       simp only [sweepStep_worker _ _ _ hS, h1]
   | consumer =>
-    obtain ⟨h1, h2, h3, h4, h5⟩ := hb
+    obtain ⟨h1, h2, h3, h4, h5, h6⟩ := hb
     simp only [step] at h
-    refine ⟨[.consumer], { b with g := g' }, by simp [runActs, stepB, h], ⟨?_, h2, h3, h4, h5⟩, rfl⟩
+    refine ⟨[.consumer], { b with g := g' }, by simp [runActs, stepB, h], ⟨?_, h2, h3, h4, h5, h6⟩, rfl⟩
     simp only [consumerStep_worker _ _ _ _ _ h, h1]
   | advance d =>
-    obtain ⟨h1, h2, h3, h4, h5⟩ := hb
+    obtain ⟨h1, h2, h3, h4, h5, h6⟩ := hb
     simp only [step, Except.ok.injEq, Prod.mk.injEq] at h
     obtain ⟨rfl, _, rfl⟩ := h
     exact ⟨[.advance d], { b with g := { b.g with now := b.g.now + d } }, by simp [runActs, stepB],
-      ⟨h1, h2, h3, h4, h5⟩, rfl⟩
+      ⟨h1, h2, h3, h4, h5, h6⟩, rfl⟩
+
+/-- **`shutdown` parks, then resumes.** From a state at rest in which nothing is parked for client `i`, a Layer A
+    `shutdown i` that parks leaves (by `client_refines`) the Layer B client at its send in the state `b1`; `b1` and
+    Layer A's `g1` satisfy the hypotheses of `resume_refines`: the `resume` is the Layer B client going on. -/
+theorem shutdown_park_resume (b : BState) (i : Nat) (o : Oracle) (g1 : State) (o1 : Oracle) (o2 : Oracle) (fuel : Nat)
+    (hb : atRest b) (hi : i < b.cl.length) (hnone : b.g.pend.get? i = none)
+    (h : step b.g (.shutdown i) o = .ok (g1, .parked, o1)) (hf : 12 ≤ fuel) :
+    clientRun 13 (setClient b i (.start .shutdown)) i o = .ok (afterCall b i g1 .parked, o1) ∧
+    match resume g1 i with
+    | .ok r => clientRun fuel (afterCall b i g1 .parked) i o2 =
+        .ok (afterCall (afterCall b i g1 .parked) i r.1 r.2, o2)
+    | .error _ => parkedAt (afterCall b i g1 .parked) i = true ∧
+        clientRun fuel (afterCall b i g1 .parked) i o2 = .ok (afterCall b i g1 .parked, o2) := by
+  obtain ⟨_, _, _, hwu, httl, hsr⟩ := hb
+  constructor
+  · have C := client_refines b i .shutdown o 13 hi hwu httl hsr (Nat.le_refl _)
+    simp only [reqEv] at C
+    rw [h] at C
+    exact C
+  · have hpend := shutdown_parked_pend _ _ _ _ _ h
+    have key : ∃ p, (p = Pending.shutdownCmd ∨ p = .shutdownBuf) ∧ g1.pend = b.g.pend.set i p := by
+      rcases hpend with h | h
+      · exact ⟨_, Or.inl rfl, h⟩
+      · exact ⟨_, Or.inr rfl, h⟩
+    obtain ⟨p, _, hp⟩ := key
+    have hget : g1.pend.get? i = some p := by rw [hp]; simp
+    refine resume_refines (afterCall b i g1 .parked) i g1 p o2 fuel hwu httl hsr hget ?_ ?_ hf
+    · simp only [afterCall]
+      rw [hp, amap_set_del_absent _ _ _ hnone]
+    · simp [afterCall, hi, hget]
 
 /-- the hypotheses of `layerA_step_is_layerB_run` hold of `exB` and the worker event with the two-eviction put -/
 example :
     atRest exB ∧ Covered .worker ∧ evClient .worker < exB.cl.length ∧
-    (exB.g.worker = .running → ∀ h q, exB.g.queue ≠ (.shutdown, h) :: q) ∧
     (match step exB.g .worker exO with | .ok (_, out, _) => isParked out == false | _ => false) = true := by
-  refine ⟨⟨rfl, rfl, ?_, rfl, rfl⟩, .worker, by decide, ?_, by decide⟩
-  · intro pc hpc
-    simp only [exB, List.mem_cons, List.not_mem_nil, or_false] at hpc
-    exact hpc
-  · intro _ h q e; cases e
+  refine ⟨⟨rfl, rfl, ?_, rfl, rfl, rfl⟩, .worker, by decide, by decide⟩
+  intro pc hpc
+  simp only [exB, List.mem_cons, List.not_mem_nil, or_false] at hpc
+  exact hpc
+
+/-- `get_ref` of a stored key: after two actions the client holds the read guard of the key's shard
+    (`storeReaders = [(0, 3)]`, key 102 living in store shard 3) and the worker's store write to that shard would not be
+    enabled; at the end of the run the guard is gone and the state is the one of Layer A's `.get 102`. -/
+def outIsNone : Out → Bool
+  | .none => true
+  | _ => false
+
+def exBRef : BState := { g := exG, cl := [.idle, .idle], res := [[], []], storeShard := [(102, 3)] }
+
+example :
+    (0 < exBRef.cl.length ∧ exBRef.wuOwner = none ∧ exBRef.ttlOwner = none ∧ exBRef.storeReaders = []) ∧
+    (match runActs exBRef [.issue 0 (.getRef 102), .client 0, .client 0] { pool := [0] } with
+      | .ok (b', _) => some (b'.storeReaders, b'.cl[0]? matches some (CPc.refPool 102 2), storeWritable b' 102 none,
+          storeWritable b' 102 (some 0), storeWritable b' 101 none)
+      | _ => none) = some ([(0, 3)], true, false, true, true) ∧
+    (match clientRun 8 (setClient exBRef 0 (.start (.getRef 102))) 0 { pool := [0] }, step exG (.get 102) { pool := [0] } with
+      | .ok (b', o1), .ok (g', .value v, o2) =>
+        some (gview b'.g == gview g' && o1.isEmpty && o2.isEmpty && (b'.cl[0]? matches some CPc.idle),
+          b'.g.pool, v, b'.storeReaders)
+      | _, _ => none) = some (true, [[102]], some 2, []) := by
+  exact ⟨by decide, by decide, by decide⟩
+
+/-- `shutdown` with room in both queues (`cmdCap = 4`, one command queued): client 1 runs all twelve actions; the result
+    is Layer A's `clientShutdown` (= `shutdownFinish` after the two sends) — compared field by field on `gview` and as
+    whole states by `rfl`. -/
+example :
+    (1 < exB2.cl.length ∧ exB2.wuOwner = none ∧ exB2.ttlOwner = none ∧ exB2.storeReaders = [] ∧ reqFuel .shutdown ≤ 14) ∧
+    (match step exG (.shutdown 1) {} with
+      | .ok (g', out, _) => some (isParked out || !g'.shutting || g'.consumerKeep || g'.sweeperKeep, gview g', g'.bufq)
+      | _ => none) =
+      some (false,
+        ⟨[], 0, [], [], [(.put 4 14 6 104 7, some 0), (.shutdown, none)], [.pending], [0, 0, 0, 0, 0, 0, 0, 0, 0, 0], .running⟩,
+        [.shutdown]) ∧
+    (match clientRun 14 (setClient exB2 1 (.start .shutdown)) 1 {}, step exG (.shutdown 1) {} with
+      | .ok (b', _), .ok (g', _, _) => some (gview b'.g == gview g', b'.cl[1]? matches some CPc.idle, b'.res.map (·.map outIsNone))
+      | _, _ => none) = some (true, true, [[], [true]]) ∧
+    (clientRun 12 (setClient exB2 1 (.start .shutdown)) 1 {}).toOption.isNone = true := by
+  exact ⟨by decide, by decide, by decide, by decide⟩
+
+example :
+    (match clientRun 14 (setClient exB2 1 (.start .shutdown)) 1 {} with | .ok (b', _) => some b'.g | _ => none) =
+    (match step exG (.shutdown 1) {} with | .ok (g', _, _) => some g' | _ => none) := by
+  rfl
+
+/-- `exG` with a command queue of capacity 1, which the queued put fills -/
+def exCap1 : State := { exG with cfg := { exG.cfg with cmdCap := 1 } }
+def exBCap1 : BState := { g := exCap1, cl := [.idle], res := [[]] }
+
+/-- `shutdown` PARKS at the command queue (`cmdCap := 1`, one command queued): Layer A answers `.parked` with
+    `pend[0] = .shutdownCmd` and `shutting = true`; the Layer B client has done `start` and `shutCas` and stands at
+    `.shutSendCmd`, not enabled (`parkedAt`), with `shutting = true`, nothing sent, nothing cleared. -/
+example :
+    (match step exCap1 (.shutdown 0) {} with
+      | .ok (g', out, _) => some (isParked out, g'.pend, g'.shutting, g'.queue.length, g'.store.length)
+      | _ => none) = some (true, [(0, .shutdownCmd)], true, 1, 3) ∧
+    (match clientRun 14 (setClient exBCap1 0 (.start .shutdown)) 0 {}, step exCap1 (.shutdown 0) {} with
+      | .ok (b', _), .ok (g', _, _) =>
+        some ((b'.cl[0]? matches some CPc.shutSendCmd) && parkedAt b' 0 && b'.g.shutting && gview b'.g == gview g',
+          b'.g.pend, b'.res.map (·.length), b'.g.bufq)
+      | _, _ => none) = some (true, [], [0], []) := by
+  exact ⟨by decide, by decide⟩
+
+/-- … and resumes: the worker takes the queued put (two evictions, oracle `exO`), which makes room; Layer A's
+    `resume 0` then is the Layer B client going on from `.shutSendCmd` to the end of `shutdown`. Both layers, event by
+    event, end in the same shared state. Before the worker has run, `resume` is illegal and the client not enabled. -/
+example :
+    (match step exCap1 (.shutdown 0) {} with
+      | .ok (g1, _, _) => some ((resume g1 0).toOption.isNone)
+      | _ => none) = some true ∧
+    (match step exCap1 (.shutdown 0) {} with
+      | .ok (g1, _, _) =>
+        (match step g1 .worker exO with
+         | .ok (g2, _, _) =>
+           (match step g2 (.resume 0) {} with
+            | .ok (g3, out, _) => some (isParked out, gview g3, g3.bufq, g3.pend)
+            | _ => none)
+         | _ => none)
+      | _ => none) =
+      some (false, ⟨[], 0, [], [], [(.shutdown, none)], [.accepted], [0, 0, 0, 0, 0, 0, 0, 0, 0, 0], .running⟩,
+        [.shutdown], []) ∧
+    (match clientRun 14 (setClient exBCap1 0 (.start .shutdown)) 0 {} with
+      | .ok (b1, _) =>
+        (match workerRun (workerFuel b1) b1 exO with
+         | .ok (b2, _) =>
+           (match clientRun 12 b2 0 {} with
+            | .ok (b3, _) => some (gview b3.g, b3.g.bufq, b3.g.pend, (b3.cl[0]? matches some CPc.idle) && b3.res.map (·.map outIsNone) == [[true]])
+            | _ => none)
+         | _ => none)
+      | _ => none) =
+      some (⟨[], 0, [], [], [(.shutdown, none)], [.accepted], [0, 0, 0, 0, 0, 0, 0, 0, 0, 0], .running⟩,
+        [.shutdown], [], true) := by
+  exact ⟨by decide, by decide, by decide⟩
+
+/-- the hypotheses of `shutdown_park_resume` hold of `exBCap1` -/
+example :
+    atRest exBCap1 ∧ 0 < exBCap1.cl.length ∧ exBCap1.g.pend.get? 0 = none ∧
+    (match step exBCap1.g (.shutdown 0) {} with | .ok (_, out, _) => isParked out | _ => false) = true := by
+  refine ⟨⟨rfl, rfl, ?_, rfl, rfl, rfl⟩, by decide, rfl, by decide⟩
+  intro pc hpc
+  simp only [exBCap1, List.mem_cons, List.not_mem_nil, or_false] at hpc
+  exact hpc
+
+/-- … and the hypotheses of `layerA_step_is_layerB_run` for `.shutdown 1` (which does not park) of `exB2` -/
+example :
+    atRest exB2 ∧ Covered (.shutdown 1) ∧ evClient (.shutdown 1) < exB2.cl.length ∧
+    (match step exB2.g (.shutdown 1) {} with | .ok (_, out, _) => isParked out == false | _ => false) = true := by
+  refine ⟨⟨rfl, rfl, ?_, rfl, rfl, rfl⟩, .shutdown 1, by decide, by decide⟩
+  intro pc hpc
+  simp only [exB2, List.mem_cons, List.not_mem_nil, or_false] at hpc
+  rcases hpc with h | h <;> exact h
 
 end B
 end Cached
